@@ -316,7 +316,7 @@ Proof.
   apply (srel_pres p_optnn (fun _ _ => True)); srel_side.
   intros i a a' dh dh' fs fs' HF2 H. simpl in *. apply existsb_false_iff. intros f' Hf'.
     destruct (Forall2_in_r _ _ _ HF2 f' Hf') as [f [Hf [Hreq Hkn]]].
-    pose proof (proj1 (existsb_false_iff _ _) H f Hf) as Hx. rewrite Hreq.
+    pose proof (proj1 (existsb_false_iff _ _) H f Hf) as Hx. simpl in Hx. rewrite Hreq.
     destruct (f_required f); [reflexivity|]. simpl in *. apply negb_false_iff in Hx. rewrite (Hkn Hx). reflexivity.
 Qed.
 
@@ -430,4 +430,1523 @@ Proof.
   destruct (astn_object_spec o) as [S1 S2]. destruct Hcase as [->|Hn].
   - eapply Hsrel; eassumption.
   - destruct (S2 _ Hn) as [u [Hu Hsu]]. eapply Hsrel; [eassumption|]. eapply sub_at_clean; eassumption.
+Qed.
+
+(* ---------- NotRequiredFieldAsNullableType ---------- *)
+Lemma nrfn_srel : forall t, srel t (nrfn_ty t) /\ keeps_null t (nrfn_ty t).
+Proof.
+  induction t as [a d IH|a v IH|a vs IH|a i v IHi IHv|a dh fs IHd IHf|a pk n|a pk n v|a k v cs|a bs IH|a v|a k]
+    using ty_ind'; try (split; [apply SR_same|intros H; exact H]); simpl; (split; [|intros H; exact H]).
+  - apply SR_disj. simpl. apply srel_list_map. intros b Hb. rewrite Forall_forall in IH. exact (proj1 (IH b Hb)).
+  - apply SR_array. exact (proj1 IH).
+  - apply SR_map; [exact (proj1 IHi)|exact (proj1 IHv)].
+  - apply SR_struct.
+    apply (srel_fields_map (fun f => if negb (f_required f) && negb (nullable (ty_attrs (nrfn_ty (f_type f))))
+                                     then set_nullable (nrfn_ty (f_type f)) true else nrfn_ty (f_type f))).
+    intros f Hf. rewrite Forall_forall in IHf. destruct (IHf f Hf) as [H1 H2].
+    destruct (negb (f_required f) && negb (nullable (ty_attrs (nrfn_ty (f_type f))))).
+    + split; [unfold set_nullable; apply SR_setattrs; assumption|]. intros _. destruct (nrfn_ty (f_type f)); reflexivity.
+    + split; assumption.
+  - apply SR_inter. apply srel_list_map. intros b Hb. rewrite Forall_forall in IH. exact (proj1 (IH b Hb)).
+Qed.
+
+Lemma visit_schema_t_objects (ft : ty -> ty) (fo : object -> object) s k o' :
+  In (k, o') (s_objects (visit_schema_t ft fo s)) -> exists ko, In ko (s_objects s) /\ o' = fo (snd ko).
+Proof.
+  unfold visit_schema_t. simpl.
+  assert (forall (l : list (string * object)) acc,
+            In (k, o') (fold_left (fun acc (ko : string * object) => add_object acc (fo (snd ko))) l acc) ->
+            In (k, o') acc \/ exists ko, In ko l /\ o' = fo (snd ko)) as G.
+  { induction l as [|x r IH]; intros acc H; [left; assumption|]. simpl in H. apply IH in H.
+    destruct H as [H|[ko [Hk E]]]; [|right; exists ko; split; [right; assumption|assumption]].
+    unfold add_object in H. apply objs_set_in_inv in H. destruct H as [H|H]; [left; assumption|].
+    right. exists x. split; [left; reflexivity|assumption]. }
+  intros H. destruct (G _ _ H) as [[]|Hx]. exact Hx.
+Qed.
+
+Theorem nrfn_pres (p : bool -> ty -> bool) ss :
+  (forall t t' inter, srel t t' -> any_sub p inter t = false -> any_sub p inter t' = false) ->
+  all_clean p ss -> all_clean p (not_required_field_as_nullable_type ss).
+Proof.
+  intros Hsrel Hc o' Ho'. unfold not_required_field_as_nullable_type in Ho'. apply in_objects_of_map in Ho'.
+  destruct Ho' as [s [k [Hs Hko]]]. apply visit_schema_t_objects in Hko. destruct Hko as [[k0 o] [Hin ->]]. simpl.
+  eapply Hsrel; [apply nrfn_srel|]. apply Hc. apply in_objects_of. exists s, k0. split; assumption.
+Qed.
+Theorem nrfn_pres_below (p : bool -> ty -> bool) ss :
+  (forall t t', srel t t' -> any_below p t = false -> any_below p t' = false) ->
+  all_clean_below p ss -> all_clean_below p (not_required_field_as_nullable_type ss).
+Proof.
+  intros Hsrel Hc o' Ho'. unfold not_required_field_as_nullable_type in Ho'. apply in_objects_of_map in Ho'.
+  destruct Ho' as [s [k [Hs Hko]]]. apply visit_schema_t_objects in Hko. destruct Hko as [[k0 o] [Hin ->]]. simpl.
+  eapply Hsrel; [apply nrfn_srel|]. apply Hc. apply in_objects_of. exists s, k0. split; assumption.
+Qed.
+
+(* ---------- AnonymousEnumToExplicitType ---------- *)
+Lemma aete_srel spkg pkg cur : forall t sug,
+  srel t (fst (aete_type spkg pkg cur sug t)) /\ keeps_null t (fst (aete_type spkg pkg cur sug t)).
+Proof.
+  induction t as [a d IH|a v IH|a vs IH|a i v IHi IHv|a dh fs IHd IHf|a pk n|a pk n v|a k v cs|a bs IH|a v|a k]
+    using ty_ind'; intros sug; try (split; [apply SR_same|intros H; exact H]).
+  - rewrite aete_disj. simpl. split; [|intros H; exact H]. apply SR_disj. simpl.
+    rewrite (proj1 (aete_list_spec spkg pkg cur sug _)). apply srel_list_map. intros b Hb.
+    rewrite Forall_forall in IH. exact (proj1 (IH b Hb sug)).
+  - rewrite aete_array. simpl. split; [|intros H; exact H]. apply SR_array. exact (proj1 (IH sug)).
+  - simpl. split; [apply SR_simple; exact I|]. unfold keeps_null. simpl. auto.
+  - rewrite aete_map. simpl. split; [|intros H; exact H]. apply SR_map; [exact (proj1 (IHi sug))|exact (proj1 (IHv sug))].
+  - rewrite aete_struct. simpl. split; [|intros H; exact H]. apply SR_struct.
+    rewrite (proj1 (aete_fields_spec spkg pkg cur _)). apply srel_fields_map. intros f Hf.
+    rewrite Forall_forall in IHf. apply (IHf f Hf).
+  - rewrite aete_inter. simpl. split; [|intros H; exact H]. apply SR_inter.
+    rewrite (proj1 (aete_list_spec spkg pkg cur sug _)). apply srel_list_map. intros b Hb.
+    rewrite Forall_forall in IH. exact (proj1 (IH b Hb sug)).
+Qed.
+
+Lemma aete_news_enum spkg pkg cur : forall t sug o, In o (snd (aete_type spkg pkg cur sug t)) -> is_enum (o_type o) = true.
+Proof.
+  induction t as [a d IH|a v IH|a vs IH|a i v IHi IHv|a dh fs IHd IHf|a pk n|a pk n v|a k v cs|a bs IH|a v|a k]
+    using ty_ind'; intros sug o Ho; try (simpl in Ho; contradiction).
+  - rewrite aete_disj in Ho. simpl in Ho. rewrite (proj2 (aete_list_spec spkg pkg cur sug _)) in Ho.
+    apply in_flat_map in Ho. destruct Ho as [b [Hb Ho]]. rewrite Forall_forall in IH. exact (IH b Hb sug o Ho).
+  - rewrite aete_array in Ho. simpl in Ho. exact (IH sug o Ho).
+  - simpl in Ho. destruct Ho as [<-|[]]. reflexivity.
+  - rewrite aete_map in Ho. simpl in Ho. apply in_app_or in Ho. destruct Ho as [Ho|Ho]; [exact (IHi sug o Ho)|exact (IHv sug o Ho)].
+  - rewrite aete_struct in Ho. simpl in Ho. rewrite (proj2 (aete_fields_spec spkg pkg cur _)) in Ho.
+    apply in_flat_map in Ho. destruct Ho as [f [Hf Ho]]. rewrite Forall_forall in IHf. exact (IHf f Hf _ o Ho).
+  - rewrite aete_inter in Ho. simpl in Ho. rewrite (proj2 (aete_list_spec spkg pkg cur sug _)) in Ho.
+    apply in_flat_map in Ho. destruct Ho as [b [Hb Ho]]. rewrite Forall_forall in IH. exact (IH b Hb sug o Ho).
+Qed.
+
+Lemma aete_schema_objects s k o' : In (k, o') (s_objects (aete_schema s)) ->
+  (exists ko, In ko (s_objects s) /\ srel (o_type (snd ko)) (o_type o')) \/ is_enum (o_type o') = true.
+Proof.
+  unfold aete_schema. intros Hko.
+  match type of Hko with context [fold_left ?F (s_objects s) ([], [])] =>
+    assert ((fun acc : list (string * object) * list object =>
+               (forall k o, In (k, o) (fst acc) -> exists ko, In ko (s_objects s) /\ srel (o_type (snd ko)) (o_type o)) /\
+               (forall o, In o (snd acc) -> is_enum (o_type o) = true))
+              (fold_left F (s_objects s) ([], []))) as Hinv
+  end.
+  { apply fold_left_inv; [|split; intros; simpl in *; contradiction].
+    intros [objs news] [k0 o0] Hin0 [H1 H2]. simpl.
+    destruct (is_enum (o_type o0)) eqn:Ee; simpl.
+    - split; [|assumption]. intros k1 o1 Hin. apply objs_set_in_inv in Hin. destruct Hin as [Hin|Heq]; [eapply H1; eassumption|].
+      subst o1. exists (k0, o0). split; [assumption|apply SR_same].
+    - destruct (aete_type (s_pkg s) (o_selfpkg o0) (o_name o0) _ (o_type o0)) as [t' n] eqn:Ea. simpl. split.
+      + intros k1 o1 Hin. apply objs_set_in_inv in Hin. destruct Hin as [Hin|Heq]; [eapply H1; eassumption|].
+        subst o1. exists (k0, o0). split; [assumption|]. simpl.
+        match type of Ea with aete_type ?a1 ?a2 ?a3 ?sug ?t = _ => pose proof (proj1 (aete_srel a1 a2 a3 t sug)) as Hs end.
+        rewrite Ea in Hs. exact Hs.
+      + intros o1 Hin. apply in_app_or in Hin. destruct Hin as [Hin|Hin]; [apply H2; assumption|].
+        match type of Ea with aete_type ?a1 ?a2 ?a3 ?sug ?t = _ => pose proof (aete_news_enum a1 a2 a3 t sug o1) as Hn end.
+        rewrite Ea in Hn. apply Hn. assumption. }
+  destruct (fold_left _ (s_objects s) ([], [])) as [objs news]. simpl in Hko, Hinv. destruct Hinv as [H1 H2].
+  apply fold_add_object_in in Hko. destruct Hko as [Hko|Hko]; [left; eapply H1; eassumption|right; apply H2; assumption].
+Qed.
+
+Theorem aete_pres (p : bool -> ty -> bool) ss :
+  (forall t t' inter, srel t t' -> any_sub p inter t = false -> any_sub p inter t' = false) ->
+  (forall a vs, p false (TEnum a vs) = false) ->
+  all_clean p ss -> all_clean p (anonymous_enum_to_explicit_type ss).
+Proof.
+  intros Hsrel Henum Hc o' Ho'. unfold anonymous_enum_to_explicit_type in Ho'. apply in_objects_of_map in Ho'.
+  destruct Ho' as [s [k [Hs Hko]]]. destruct (aete_schema_objects _ _ _ Hko) as [[[k0 o] [Hin Hsr]]|He].
+  - eapply Hsrel; [eassumption|]. apply Hc. apply in_objects_of. exists s, k0. split; assumption.
+  - destruct (o_type o'); try discriminate. simpl. rewrite Henum. reflexivity.
+Qed.
+Theorem aete_pres_below (p : bool -> ty -> bool) ss :
+  (forall t t', srel t t' -> any_below p t = false -> any_below p t' = false) ->
+  all_clean_below p ss -> all_clean_below p (anonymous_enum_to_explicit_type ss).
+Proof.
+  intros Hsrel Hc o' Ho'. unfold anonymous_enum_to_explicit_type in Ho'. apply in_objects_of_map in Ho'.
+  destruct Ho' as [s [k [Hs Hko]]]. destruct (aete_schema_objects _ _ _ Hko) as [[[k0 o] [Hin Hsr]]|He].
+  - eapply Hsrel; [eassumption|]. apply Hc. apply in_objects_of. exists s, k0. split; assumption.
+  - destruct (o_type o'); try discriminate. reflexivity.
+Qed.
+
+(* ---------- PrefixEnumValues only renames the members of top-level enums ---------- *)
+Lemma pev_objects ss out o' : prefix_enum_values ss = Ok out -> In o' (objects_of out) ->
+  exists o, In o (objects_of ss) /\ o_name o' = o_name o /\
+            (o_type o' = o_type o \/ exists a vs vs', o_type o = TEnum a vs /\ o_type o' = TEnum a vs').
+Proof.
+  intros H Ho'. unfold prefix_enum_values in H.
+  destruct (in_objects_of_mapM _ _ _ _ H Ho') as [s [s' [k [Hs [HF Hko]]]]].
+  destruct (map_objects_res_objects _ _ _ _ _ HF Hko) as [[k0 o] [Hin Hfo]]. simpl in Hfo.
+  exists o. split; [apply in_objects_of; exists s, k0; split; assumption|].
+  unfold pev_object in Hfo.
+  destruct (o_type o) as [a d|a v|a vs|a i v|a dh fs|a pk n|a pk n v|a kk v cs|a bs|a v|a kk] eqn:E;
+    try (inversion Hfo; subst; split; [reflexivity|left; assumption]).
+  match type of Hfo with (do _ <- ?X ; _) = _ => destruct X as [vs'| | |] end; simpl in Hfo; try discriminate.
+  inversion Hfo; subst. simpl. split; [reflexivity|]. right. exists a, vs, vs'. split; [reflexivity|reflexivity].
+Qed.
+
+Theorem pev_pres (p : bool -> ty -> bool) ss out :
+  (forall inter a vs vs', p inter (TEnum a vs') = p inter (TEnum a vs)) ->
+  all_clean p ss -> prefix_enum_values ss = Ok out -> all_clean p out.
+Proof.
+  intros Hp Hc H o' Ho'. destruct (pev_objects _ _ _ H Ho') as [o [Ho [_ [E|[a [vs [vs' [E1 E2]]]]]]]].
+  - rewrite E. apply Hc. assumption.
+  - rewrite E2. pose proof (Hc o Ho) as Hx. rewrite E1 in Hx. simpl in *. rewrite (Hp false a vs vs'). assumption.
+Qed.
+Theorem pev_pres_below (p : bool -> ty -> bool) ss out :
+  all_clean_below p ss -> prefix_enum_values ss = Ok out -> all_clean_below p out.
+Proof.
+  intros Hc H o' Ho'. destruct (pev_objects _ _ _ H Ho') as [o [Ho [_ [E|[a [vs [vs' [E1 E2]]]]]]]].
+  - rewrite E. apply Hc. assumption.
+  - rewrite E2. reflexivity.
+Qed.
+
+(* ---------- DisjunctionOfAnonymousStructsToExplicit, under NUF ---------- *)
+Section Doaste.
+  Variable pkg : string.
+  Let ST := list (string * object).
+  Fixpoint doaste_fields (l : list field) (st : ST) : list field * ST :=
+    match l with
+    | [] => ([], st)
+    | f :: r => let '(t', st1) := doaste_ty pkg st (f_type f) in
+                let '(r', st2) := doaste_fields r st1 in
+                (mkField (f_name f) (f_comments f) t' (f_required f) :: r', st2)
+    end.
+  Fixpoint doaste_list (l : list ty) (st : ST) : list ty * ST :=
+    match l with
+    | [] => ([], st)
+    | b :: r => let '(b', st1) := doaste_ty pkg st b in
+                let '(r', st2) := doaste_list r st1 in (b' :: r', st2)
+    end.
+  Fixpoint doaste_branches (i : nat) (l : list ty) (st : ST) : list ty * ST :=
+    match l with
+    | [] => ([], st)
+    | b :: r =>
+        match b with
+        | TStruct _ _ _ =>
+            let name := doaste_name b i in
+            let '(b', st1) := doaste_ty pkg st b in
+            let '(r', st2) := doaste_branches (S i) r (objs_set st1 name (new_object pkg name b')) in
+            (TRef A0 pkg name :: r', st2)
+        | _ => let '(r', st2) := doaste_branches (S i) r st in (b :: r', st2)
+        end
+    end.
+
+  Lemma doaste_array st a v :
+    doaste_ty pkg st (TArray a v) = (TArray a (fst (doaste_ty pkg st v)), snd (doaste_ty pkg st v)).
+  Proof. simpl. destruct (doaste_ty pkg st v). reflexivity. Qed.
+  Lemma doaste_map st a i v :
+    doaste_ty pkg st (TMap a i v)
+    = (TMap a (fst (doaste_ty pkg st i)) (fst (doaste_ty pkg (snd (doaste_ty pkg st i)) v)),
+       snd (doaste_ty pkg (snd (doaste_ty pkg st i)) v)).
+  Proof. simpl. destruct (doaste_ty pkg st i) as [i' st1]. simpl. destruct (doaste_ty pkg st1 v). reflexivity. Qed.
+  Lemma doaste_struct st a dh fs :
+    doaste_ty pkg st (TStruct a dh fs) = (TStruct a dh (fst (doaste_fields fs st)), snd (doaste_fields fs st)).
+  Proof.
+    change (doaste_ty pkg st (TStruct a dh fs)) with (let '(fs', st') := doaste_fields fs st in (TStruct a dh fs', st')).
+    destruct (doaste_fields fs st). reflexivity.
+  Qed.
+  Lemma doaste_inter st a bs :
+    doaste_ty pkg st (TInter a bs) = (TInter a (fst (doaste_list bs st)), snd (doaste_list bs st)).
+  Proof.
+    change (doaste_ty pkg st (TInter a bs)) with (let '(bs', st') := doaste_list bs st in (TInter a bs', st')).
+    destruct (doaste_list bs st). reflexivity.
+  Qed.
+  Lemma doaste_disj st a d :
+    doaste_ty pkg st (TDisj a d)
+    = if Nat.eqb (List.length (filter is_scalar (d_branches d))) 1 && Nat.eqb (List.length (filter is_struct (d_branches d))) 1
+      then (TDisj a d, st)
+      else (TDisj a (mkDisj (fst (doaste_branches 0 (d_branches d) st)) (d_disc d) (d_mapping d)),
+            snd (doaste_branches 0 (d_branches d) st)).
+  Proof.
+    change (doaste_ty pkg st (TDisj a d))
+      with (if Nat.eqb (List.length (filter is_scalar (d_branches d))) 1 && Nat.eqb (List.length (filter is_struct (d_branches d))) 1
+            then (TDisj a d, st)
+            else let '(bs', st') := doaste_branches 0 (d_branches d) st in
+                 (TDisj a (mkDisj bs' (d_disc d) (d_mapping d)), st')).
+    destruct (_ && _); [reflexivity|]. destruct (doaste_branches 0 (d_branches d) st). reflexivity.
+  Qed.
+
+  (* a type without any union is left alone *)
+  Lemma doaste_id : forall t st, any_sub p_union false t = false -> doaste_ty pkg st t = (t, st).
+  Proof.
+    induction t as [a d IH|a v IH|a vs IH|a i v IHi IHv|a dh fs IHd IHf|a pk n|a pk n v|a k v cs|a bs IH|a v|a k]
+      using ty_ind'; intros st H; try reflexivity.
+    - simpl in H. discriminate.
+    - rewrite doaste_array. simpl in H. rewrite (IH st H). reflexivity.
+    - rewrite doaste_map. simpl in H. apply orb_false_iff in H. destruct H as [Hi Hv].
+      rewrite (IHi st Hi). simpl. rewrite (IHv st Hv). reflexivity.
+    - rewrite doaste_struct. simpl in H.
+      assert (doaste_fields fs st = (fs, st)) as E.
+      { revert st. induction fs as [|f r IHr]; intros st; [reflexivity|]. simpl.
+        inversion IHf as [|? ? Hf Hr]; subst. simpl in H. apply orb_false_iff in H. destruct H as [H1 H2].
+        rewrite (Hf st H1). rewrite (IHr Hr H2 st). destruct f; reflexivity. }
+      rewrite E. reflexivity.
+    - rewrite doaste_inter. simpl in H.
+      assert (doaste_list bs st = (bs, st)) as E.
+      { revert st. induction bs as [|b r IHr]; intros st; [reflexivity|]. simpl.
+        inversion IH as [|? ? Hb Hr]; subst. simpl in H. apply orb_false_iff in H. destruct H as [H1 H2].
+        rewrite (p_union_irrel b true false) in H1. rewrite (Hb st H1). rewrite (IHr Hr H2 st). reflexivity. }
+      rewrite E. reflexivity.
+  Qed.
+
+  Definition came_from (inter : bool) (t : ty) (st st' : ST) : Prop :=
+    forall k o, In (k, o) st' -> In (k, o) st \/ exists j u, sub_at inter t j u /\ o_type o = u.
+
+  Lemma doaste_branches_spec : forall l i st,
+    (forall b, In b l -> any_sub p_union false b = false) ->
+    srel_list l (fst (doaste_branches i l st)) /\
+    forall k o, In (k, o) (snd (doaste_branches i l st)) -> In (k, o) st \/ exists b, In b l /\ o_type o = b.
+  Proof.
+    induction l as [|b r IH]; intros i st Hl; [split; [constructor|intros k o H; left; exact H]|].
+    assert (forall b', In b' r -> any_sub p_union false b' = false) as Hr by (intros b' Hb'; apply Hl; right; assumption).
+    simpl. destruct b as [a d|a v|a vs|a x v|a dh fs|a pk n|a pk n v|a kk v cs|a bs|a v|a kk];
+      try (destruct (IH (S i) st Hr) as [S1 S2]; destruct (doaste_branches (S i) r st) as [r' st2]; simpl in *;
+           split; [constructor; [apply SR_same|assumption]|];
+           intros k o Hin; destruct (S2 k o Hin) as [Hx|[b' [Hb' E]]]; [left; assumption|right; exists b'; split; [right; assumption|assumption]]).
+    rewrite (doaste_id (TStruct a dh fs) st (Hl _ (or_introl eq_refl))).
+    set (name := doaste_name (TStruct a dh fs) i).
+    destruct (IH (S i) (objs_set st name (new_object pkg name (TStruct a dh fs))) Hr) as [S1 S2].
+    destruct (doaste_branches (S i) r _) as [r' st2]. simpl in *.
+    split; [constructor; [apply SR_simple; exact I|assumption]|].
+    intros k o Hin. destruct (S2 k o Hin) as [Hx|[b' [Hb' E]]]; [|right; exists b'; split; [right; assumption|assumption]].
+    apply objs_set_in_inv in Hx. destruct Hx as [Hx|Heq]; [left; assumption|].
+    right. exists (TStruct a dh fs). split; [left; reflexivity|]. subst o. reflexivity.
+  Qed.
+
+  Lemma doaste_spec : forall t inter st,
+    any_sub p_nuf inter t = false ->
+    srel t (fst (doaste_ty pkg st t)) /\ keeps_null t (fst (doaste_ty pkg st t)) /\
+    came_from inter t st (snd (doaste_ty pkg st t)).
+  Proof.
+    induction t as [a d IH|a v IH|a vs IH|a i v IHi IHv|a dh fs IHd IHf|a pk n|a pk n v|a k v cs|a bs IH|a v|a k]
+      using ty_ind'; intros inter st H;
+      try (split; [apply SR_same|split; [intros X; exact X|intros k0 o0 Hin; left; exact Hin]]).
+    - (* union: its branches contain no union *)
+      pose proof (nuf_branches inter a d H) as Hb. rewrite doaste_disj.
+      destruct (_ && _); [split; [apply SR_same|split; [intros X; exact X|intros k0 o0 Hin; left; exact Hin]]|].
+      destruct (doaste_branches_spec (d_branches d) 0 st Hb) as [S1 S2]. simpl.
+      split; [apply SR_disj; exact S1|split; [intros X; exact X|]].
+      intros k0 o0 Hin. destruct (S2 k0 o0 Hin) as [Hx|[b [Hbin E]]]; [left; assumption|].
+      right. exists inter, b. split; [eapply SA_disj; [eassumption|apply SA_here]|assumption].
+    - rewrite doaste_array. simpl in H. try rewrite orb_false_l in H. destruct (IH inter st H) as [S1 [_ S3]]. simpl.
+      split; [apply SR_array; assumption|split; [intros X; exact X|]].
+      intros k0 o0 Hin. destruct (S3 k0 o0 Hin) as [Hx|[j [u [Hu E]]]]; [left; assumption|].
+      right. exists j, u. split; [apply SA_array; assumption|assumption].
+    - rewrite doaste_map. simpl in H. try rewrite orb_false_l in H. apply orb_false_iff in H. destruct H as [Hi Hv].
+      destruct (IHi inter st Hi) as [S1 [_ S3]].
+      destruct (IHv inter (snd (doaste_ty pkg st i)) Hv) as [T1 [_ T3]]. simpl.
+      split; [apply SR_map; assumption|split; [intros X; exact X|]].
+      intros k0 o0 Hin. destruct (T3 k0 o0 Hin) as [Hx|[j [u [Hu E]]]].
+      + destruct (S3 k0 o0 Hx) as [Hy|[j [u [Hu E]]]]; [left; assumption|].
+        right. exists j, u. split; [apply SA_map_i; assumption|assumption].
+      + right. exists j, u. split; [apply SA_map_v; assumption|assumption].
+    - rewrite doaste_struct. simpl in H. try rewrite orb_false_l in H. simpl.
+      assert (forall l st0, Forall (fun f => forall inter st, any_sub p_nuf inter (f_type f) = false ->
+                                   srel (f_type f) (fst (doaste_ty pkg st (f_type f))) /\
+                                   keeps_null (f_type f) (fst (doaste_ty pkg st (f_type f))) /\
+                                   came_from inter (f_type f) st (snd (doaste_ty pkg st (f_type f)))) l ->
+                (forall f, In f l -> any_sub p_nuf inter (f_type f) = false) ->
+                srel_fields l (fst (doaste_fields l st0)) /\
+                forall k0 o0, In (k0, o0) (snd (doaste_fields l st0)) ->
+                              In (k0, o0) st0 \/ exists f j u, In f l /\ sub_at inter (f_type f) j u /\ o_type o0 = u) as G.
+      { induction l as [|f r IHr]; intros st0 HF Hc; [split; [constructor|intros k0 o0 X; left; exact X]|].
+        inversion HF as [|? ? Hf Hr]; subst. simpl.
+        destruct (Hf inter st0 (Hc f (or_introl eq_refl))) as [S1 [S2 S3]].
+        destruct (doaste_ty pkg st0 (f_type f)) as [t' st1]. simpl in *.
+        destruct (IHr st1 Hr (fun g Hg => Hc g (or_intror Hg))) as [R1 R2].
+        destruct (doaste_fields r st1) as [r' st2]. simpl in *.
+        split; [constructor; simpl; try assumption; reflexivity|].
+        intros k0 o0 Hin. destruct (R2 k0 o0 Hin) as [Hx|[g [j [u [Hg [Hu E]]]]]].
+        - destruct (S3 k0 o0 Hx) as [Hy|[j [u [Hu E]]]]; [left; assumption|].
+          right. exists f, j, u. split; [left; reflexivity|split; assumption].
+        - right. exists g, j, u. split; [right; assumption|split; assumption]. }
+      destruct (G fs st IHf (proj1 (existsb_false_iff _ _) H)) as [G1 G2].
+      split; [apply SR_struct; assumption|split; [intros X; exact X|]].
+      intros k0 o0 Hin. destruct (G2 k0 o0 Hin) as [Hx|[f [j [u [Hf [Hu E]]]]]]; [left; assumption|].
+      right. exists j, u. split; [eapply SA_struct; eassumption|assumption].
+    - rewrite doaste_inter. simpl in H. try rewrite orb_false_l in H. simpl.
+      assert (forall l st0, Forall (fun b => forall inter st, any_sub p_nuf inter b = false ->
+                                   srel b (fst (doaste_ty pkg st b)) /\ keeps_null b (fst (doaste_ty pkg st b)) /\
+                                   came_from inter b st (snd (doaste_ty pkg st b))) l ->
+                (forall b, In b l -> any_sub p_nuf true b = false) ->
+                srel_list l (fst (doaste_list l st0)) /\
+                forall k0 o0, In (k0, o0) (snd (doaste_list l st0)) ->
+                              In (k0, o0) st0 \/ exists b j u, In b l /\ sub_at true b j u /\ o_type o0 = u) as G.
+      { induction l as [|b r IHr]; intros st0 HF Hc; [split; [constructor|intros k0 o0 X; left; exact X]|].
+        inversion HF as [|? ? Hb Hr]; subst. simpl.
+        destruct (Hb true st0 (Hc b (or_introl eq_refl))) as [S1 [S2 S3]].
+        destruct (doaste_ty pkg st0 b) as [b' st1]. simpl in *.
+        destruct (IHr st1 Hr (fun g Hg => Hc g (or_intror Hg))) as [R1 R2].
+        destruct (doaste_list r st1) as [r' st2]. simpl in *.
+        split; [constructor; assumption|].
+        intros k0 o0 Hin. destruct (R2 k0 o0 Hin) as [Hx|[g [j [u [Hg [Hu E]]]]]].
+        - destruct (S3 k0 o0 Hx) as [Hy|[j [u [Hu E]]]]; [left; assumption|].
+          right. exists b, j, u. split; [left; reflexivity|split; assumption].
+        - right. exists g, j, u. split; [right; assumption|split; assumption]. }
+      destruct (G bs st IH (proj1 (existsb_false_iff _ _) H)) as [G1 G2].
+      split; [apply SR_inter; assumption|split; [intros X; exact X|]].
+      intros k0 o0 Hin. destruct (G2 k0 o0 Hin) as [Hx|[b [j [u [Hb [Hu E]]]]]]; [left; assumption|].
+      right. exists j, u. split; [eapply SA_inter; eassumption|assumption].
+  Qed.
+End Doaste.
+
+Lemma doaste_leaf pkg st t : is_leaf t -> doaste_ty pkg st t = (t, st).
+Proof. destruct t; simpl; intros H; try contradiction; reflexivity. Qed.
+
+Definition entry_leaf (ss : schemas) : Prop := forall s, In s ss -> is_leaf (s_entrytype s).
+
+Theorem doaste_pres (p : bool -> ty -> bool) ss out :
+  (forall t t' inter, srel t t' -> any_sub p inter t = false -> any_sub p inter t' = false) ->
+  (forall t, any_sub p true t = false -> any_sub p false t = false) ->
+  all_clean p_nuf ss -> entry_leaf ss -> all_clean p ss ->
+  disjunction_of_anonymous_structs_to_explicit ss = Ok out -> all_clean p out.
+Proof.
+  intros Hsrel Hmono Hnuf Hentry Hc H o' Ho'. unfold disjunction_of_anonymous_structs_to_explicit in H.
+  destruct (in_objects_of_mapM _ _ _ _ H Ho') as [s [s' [k [Hs [HF Hko]]]]].
+  set (C := fun t : ty => is_leaf t \/ (any_sub p_nuf false t = false /\ any_sub p false t = false)).
+  set (Q := fun st : list (string * object) => forall k o, In (k, o) st -> any_sub p false (o_type o) = false).
+  assert (forall k0 o0, In (k0, o0) (s_objects s) -> any_sub p_nuf false (o_type o0) = false /\ any_sub p false (o_type o0) = false) as Hobj.
+  { intros k0 o0 Hin. assert (In o0 (objects_of ss)) as Hx by (apply in_objects_of; exists s, k0; split; assumption).
+    split; [apply Hnuf|apply Hc]; assumption. }
+  destruct (visit_schema_st_objects [] (fun st t => Ok (doaste_ty (s_pkg s) st t)) (map snd) C Q s s') as [final [HQf Hobjs]]; try assumption.
+  - intros st t t' st' HC Hv HQ. inversion Hv as [Hv']. clear Hv. destruct HC as [Hl|[Hn Hp]].
+    + rewrite (doaste_leaf _ _ _ Hl) in Hv'. inversion Hv'; subst. assumption.
+    + destruct (doaste_spec (s_pkg s) t false st Hn) as [_ [_ S3]]. rewrite Hv' in S3. simpl in S3.
+      intros k0 o0 Hin. destruct (S3 k0 o0 Hin) as [Hx|[j [u [Hu E]]]]; [eapply HQ; eassumption|].
+      rewrite E. pose proof (sub_at_clean p _ _ _ _ Hu Hp) as Hcu. destruct j; [apply Hmono|]; assumption.
+  - intros k0 o0 [].
+  - left. apply Hentry. assumption.
+  - intros [k0 o0] Hin. right. apply (Hobj k0 o0 Hin).
+  - destruct (Hobjs k o' Hko) as [[[k0 o0] [st [t' [st' [Hin [HQ [Hv Heq]]]]]]]|Hnew].
+    + subst o'. simpl in *. inversion Hv as [Hv']. destruct (Hobj k0 o0 Hin) as [Hn Hp].
+      destruct (doaste_spec (s_pkg s) (o_type o0) false st Hn) as [S1 _]. rewrite Hv' in S1. simpl in S1.
+      eapply Hsrel; eassumption.
+    + apply in_map_iff in Hnew. destruct Hnew as [[k1 o1] [Heq Hin]]. simpl in Heq. subst o1. exact (HQf k1 o' Hin).
+Qed.
+
+(* ---------- entry-point types that are references / scalars / the zero type stay so ---------- *)
+Lemma visit_disj0_leaf f t : is_leaf t -> visit_disj0 f t = Ok t.
+Proof. destruct t; simpl; intros H; try contradiction; reflexivity. Qed.
+
+Lemma visit_schema_entry ft fo s s' : visit_schema ft fo s = Ok s' -> ft (s_entrytype s) = Ok (s_entrytype s').
+Proof.
+  rewrite visit_schema_eq. destruct (ft (s_entrytype s)) as [et| | |]; simpl; try discriminate.
+  destruct (vs_loop fo (s_objects s) []) as [objs| | |]; simpl; try discriminate. intros H. inversion H; subst. reflexivity.
+Qed.
+
+Lemma entry_leaf_v0 f ss out : entry_leaf ss -> visit_schemas_disj0 f ss = Ok out -> entry_leaf out.
+Proof.
+  intros He H s' Hs'. unfold visit_schemas_disj0 in H.
+  destruct (Forall2_in_r _ _ _ (mapM_Forall2 _ _ _ H) s' Hs') as [s [Hs HF]].
+  apply visit_schema_entry in HF. rewrite (visit_disj0_leaf _ _ (He s Hs)) in HF.
+  assert (s_entrytype s' = s_entrytype s) as E by congruence. rewrite E. apply He. assumption.
+Qed.
+
+Lemma entry_leaf_map (F : schema -> schema) ss :
+  (forall s, s_entrytype (F s) = s_entrytype s) -> entry_leaf ss -> entry_leaf (map F ss).
+Proof. intros HF He s' Hs'. apply in_map_iff in Hs'. destruct Hs' as [s [<- Hs]]. rewrite HF. apply He. assumption. Qed.
+
+Lemma entry_leaf_astn ss : entry_leaf ss -> entry_leaf (anonymous_structs_to_named ss).
+Proof.
+  apply entry_leaf_map. intros s. unfold astn_schema. destruct (fold_left _ (s_objects s) ([], [])). reflexivity.
+Qed.
+Lemma entry_leaf_aete ss : entry_leaf ss -> entry_leaf (anonymous_enum_to_explicit_type ss).
+Proof.
+  apply entry_leaf_map. intros s. unfold aete_schema. destruct (fold_left _ (s_objects s) ([], [])). reflexivity.
+Qed.
+Lemma entry_leaf_nrfn ss : entry_leaf ss -> entry_leaf (not_required_field_as_nullable_type ss).
+Proof.
+  intros He s' Hs'. unfold not_required_field_as_nullable_type in Hs'. apply in_map_iff in Hs'. destruct Hs' as [s [<- Hs]].
+  unfold visit_schema_t. simpl. pose proof (He s Hs) as Hl. destruct (s_entrytype s); simpl in *; try contradiction; exact I.
+Qed.
+Lemma entry_leaf_pev ss out : entry_leaf ss -> prefix_enum_values ss = Ok out -> entry_leaf out.
+Proof.
+  intros He H s' Hs'. unfold prefix_enum_values in H.
+  destruct (Forall2_in_r _ _ _ (mapM_Forall2 _ _ _ H) s' Hs') as [s [Hs HF]].
+  rewrite map_objects_res_eq in HF. destruct (mor_loop pev_object (s_objects s) []) as [objs| | |]; simpl in HF; try discriminate.
+  inversion HF; subst. simpl. apply He. assumption.
+Qed.
+Lemma entry_leaf_doaste ss out : entry_leaf ss -> disjunction_of_anonymous_structs_to_explicit ss = Ok out -> entry_leaf out.
+Proof.
+  intros He H s' Hs'. unfold disjunction_of_anonymous_structs_to_explicit in H.
+  destruct (Forall2_in_r _ _ _ (mapM_Forall2 _ _ _ H) s' Hs') as [s [Hs HF]].
+  rewrite visit_schema_st_eq in HF. cbn [bind] in HF. rewrite (doaste_leaf _ _ _ (He s Hs)) in HF. simpl in HF.
+  destruct (vst_loop _ (s_objects s) [] []) as [[objs st]| | |]; simpl in HF; try discriminate.
+  inversion HF; subst. simpl. apply He. assumption.
+Qed.
+
+(* ---------- NUF through the structure-preserving passes and DOASTE ---------- *)
+Lemma nuf_flag t : any_sub p_nuf true t = false -> any_sub p_nuf false t = false.
+Proof. intros H. rewrite (any_sub_inter_irrel p_nuf (fun _ _ _ => eq_refl) t false true). exact H. Qed.
+
+Definition srel_nuf' := fun t t' inter (H : srel t t') => srel_nuf t t' inter H.
+
+Theorem nuf_astn ss : all_clean p_nuf ss -> all_clean p_nuf (anonymous_structs_to_named ss).
+Proof. apply astn_pres. exact srel_nuf'. Qed.
+Theorem nuf_nrfn ss : all_clean p_nuf ss -> all_clean p_nuf (not_required_field_as_nullable_type ss).
+Proof. apply nrfn_pres. exact srel_nuf'. Qed.
+Theorem nuf_aete ss : all_clean p_nuf ss -> all_clean p_nuf (anonymous_enum_to_explicit_type ss).
+Proof. apply aete_pres; [exact srel_nuf'|reflexivity]. Qed.
+Theorem nuf_pev ss out : all_clean p_nuf ss -> prefix_enum_values ss = Ok out -> all_clean p_nuf out.
+Proof. apply pev_pres. reflexivity. Qed.
+Theorem nuf_doaste ss out : entry_leaf ss -> all_clean p_nuf ss ->
+  disjunction_of_anonymous_structs_to_explicit ss = Ok out -> all_clean p_nuf out.
+Proof. intros He Hc. apply doaste_pres; try assumption; [exact srel_nuf'|exact nuf_flag]. Qed.
+
+(* =====================================================================================
+   the Go chain, part 1: no union and no `T | null` remain when no union is nested in a
+   union branch (and entry-point types are plain references)
+   ===================================================================================== *)
+From Cog Require Import Gen.Chains_gen.
+
+Lemma entry_simple_leaf ss : entry_simple ss = true -> entry_leaf ss.
+Proof. unfold entry_simple. intros H s Hs. rewrite forallb_forall in H. apply is_leaf_b_spec. apply H. assumption. Qed.
+
+Lemma entry_leaf_nuf ss : entry_leaf ss -> nested_union_entry ss = false.
+Proof.
+  intros He. unfold nested_union_entry. apply existsb_false_iff. intros s Hs. pose proof (He s Hs) as Hl.
+  destruct (s_entrytype s); simpl in *; try contradiction; reflexivity.
+Qed.
+
+Lemma no_union_no_tnull ss : has_union ss = false -> has_t_or_null ss = false.
+Proof.
+  rewrite has_union_eq, has_t_or_null_eq. intros H. apply existsb_false_iff. intros o Ho.
+  apply union_free_tnull. exact (proj1 (existsb_false_iff _ _) H o Ho).
+Qed.
+
+(* peel one pass off `process (p :: r) ss = Ok out` *)
+Ltac step_total H :=
+  match type of H with
+  | process (?p :: ?r) ?ss = Ok ?out => change (process (p :: r) ss) with (do ss' <- run_pass p ss ; process r ss') in H;
+                                         cbn [run_pass bind] in H
+  end.
+Ltac step_res H mid E :=
+  match type of H with
+  | process (?p :: ?r) ?ss = Ok ?out =>
+      change (process (p :: r) ss) with (do ss' <- run_pass p ss ; process r ss') in H; cbn [run_pass] in H;
+      match type of H with (do _ <- ?X ; _) = _ => destruct X as [mid| | |] eqn:E end; cbn [bind] in H; try discriminate
+  end.
+
+Theorem go_chain_no_union ss out :
+  nested_union ss = false -> entry_simple ss = true -> process chain_go ss = Ok out ->
+  has_union out = false /\ has_t_or_null out = false.
+Proof.
+  intros Hn He H. apply all_clean_iff in Hn. apply entry_simple_leaf in He. unfold chain_go in H.
+  step_total H. pose proof (nuf_astn _ Hn) as N1. pose proof (entry_leaf_astn _ He) as E1.
+  step_total H. pose proof (nuf_nrfn _ N1) as N2. pose proof (entry_leaf_nrfn _ E1) as E2.
+  step_res H s3 P3. pose proof (nuf_dwnto _ _ N2 P3) as N3. pose proof (entry_leaf_v0 _ _ _ E2 P3) as E3.
+  step_res H s4 P4. pose proof (nuf_docte _ _ N3 P4) as N4. pose proof (entry_leaf_v0 _ _ _ E3 P4) as E4.
+  step_total H. pose proof (nuf_aete _ N4) as N5. pose proof (entry_leaf_aete _ E4) as E5.
+  step_res H s6 P6. pose proof (nuf_pev _ _ N5 P6) as N6. pose proof (entry_leaf_pev _ _ E5 P6) as E6.
+  step_res H s7 P7. pose proof (nuf_fd _ _ N6 P7) as N7. pose proof (entry_leaf_v0 _ _ _ E6 P7) as E7.
+  step_res H s8 P8. pose proof (nuf_doaste _ _ E7 N7 P8) as N8. pose proof (entry_leaf_doaste _ _ E7 P8) as E8.
+  step_res H s9 P9. pose proof (nuf_dim _ _ N8 P9) as N9. pose proof (entry_leaf_v0 _ _ _ E8 P9) as E9.
+  step_res H s10 P10. pose proof (nuf_udta _ _ N9 P10) as N10. pose proof (entry_leaf_v0 _ _ _ E9 P10) as E10.
+  step_res H s11 P11. simpl in H. inversion H; subst.
+  assert (has_union out = false) as HU.
+  { eapply dtt_establishes_no_union; [apply all_clean_iff; exact N10|apply entry_leaf_nuf; exact E10|exact P11]. }
+  split; [exact HU|apply no_union_no_tnull; exact HU].
+Qed.
+
+(* =====================================================================================
+   the stateless union passes, for predicates whose value at a union node does not depend on
+   the branches, under NUI (no union inside an allOf composition): every union a pass rewrites
+   then sits at a position outside compositions
+   ===================================================================================== *)
+Definition por (p q : bool -> ty -> bool) : bool -> ty -> bool := fun i t => p i t || q i t.
+
+Lemma any_sub_or p q : forall t i, any_sub (por p q) i t = any_sub p i t || any_sub q i t.
+Proof.
+  induction t as [a d IH|a v IH|a vs IH|a x v IHi IHv|a dh fs IHd IHf|a pk n|a pk n v|a k v cs|a bs IH|a v|a k]
+    using ty_ind'; intros i; unfold por; simpl; try (destruct (p i _), (q i _); reflexivity).
+  - assert (existsb (any_sub (por p q) i) (d_branches d)
+            = existsb (any_sub p i) (d_branches d) || existsb (any_sub q i) (d_branches d)) as E.
+    { induction (d_branches d) as [|b r IHr]; [reflexivity|]. inversion IH; subst. simpl. rewrite H1, IHr by assumption.
+      destruct (any_sub p i b), (any_sub q i b), (existsb (any_sub p i) r); reflexivity. }
+    unfold por in E. rewrite E. destruct (p i (TDisj a d)), (q i (TDisj a d)), (existsb (any_sub p i) (d_branches d)); reflexivity.
+  - unfold por in IH. rewrite IH. destruct (p i (TArray a v)), (q i (TArray a v)), (any_sub p i v); reflexivity.
+  - unfold por in IHi, IHv. rewrite IHi, IHv.
+    destruct (p i (TMap a x v)), (q i (TMap a x v)), (any_sub p i x), (any_sub q i x), (any_sub p i v); reflexivity.
+  - assert (existsb (fun f => any_sub (por p q) i (f_type f)) fs
+            = existsb (fun f => any_sub p i (f_type f)) fs || existsb (fun f => any_sub q i (f_type f)) fs) as E.
+    { induction fs as [|f r IHr]; [reflexivity|]. inversion IHf; subst. simpl. rewrite H1, IHr by assumption.
+      destruct (any_sub p i (f_type f)), (any_sub q i (f_type f)), (existsb (fun f => any_sub p i (f_type f)) r); reflexivity. }
+    unfold por in E. rewrite E.
+    destruct (p i (TStruct a dh fs)), (q i (TStruct a dh fs)), (existsb (fun f => any_sub p i (f_type f)) fs); reflexivity.
+  - assert (existsb (any_sub (por p q) true) bs = existsb (any_sub p true) bs || existsb (any_sub q true) bs) as E.
+    { induction bs as [|b r IHr]; [reflexivity|]. inversion IH; subst. simpl. rewrite H1, IHr by assumption.
+      destruct (any_sub p true b), (any_sub q true b), (existsb (any_sub p true) r); reflexivity. }
+    unfold por in E. rewrite E. destruct (p i (TInter a bs)), (q i (TInter a bs)), (existsb (any_sub p true) bs); reflexivity.
+Qed.
+
+Lemma any_sub_or_false p q t i : any_sub (por p q) i t = false <-> any_sub p i t = false /\ any_sub q i t = false.
+Proof. rewrite any_sub_or. apply orb_false_iff. Qed.
+
+Lemma any_below_or_false p q t : any_below (por p q) t = false <-> any_below p t = false /\ any_below q t = false.
+Proof.
+  unfold any_below. split.
+  - intros H. split; apply existsb_false_iff; intros c Hc; pose proof (proj1 (existsb_false_iff _ _) H c Hc) as Hx;
+      apply any_sub_or_false in Hx; destruct Hx; assumption.
+  - intros [H1 H2]. apply existsb_false_iff. intros c Hc. apply any_sub_or_false.
+    split; [exact (proj1 (existsb_false_iff _ _) H1 c Hc)|exact (proj1 (existsb_false_iff _ _) H2 c Hc)].
+Qed.
+
+(* the below-the-root wrapper *)
+Section V0Below.
+  Variable p : bool -> ty -> bool.
+  Hypothesis p_array : forall inter a v v', p inter (TArray a v) = false -> p inter (TArray a v') = false.
+  Hypothesis p_map : forall inter a i v i' v', p inter (TMap a i v) = false -> p inter (TMap a i' v') = false.
+  Hypothesis p_inter : forall inter a bs bs', p inter (TInter a bs) = false -> p inter (TInter a bs') = false.
+  Hypothesis p_struct : forall inter a dh fs fs', p inter (TStruct a dh fs) = false -> p inter (TStruct a dh fs') = false.
+  Variable f : schema -> ty -> res ty.
+
+  Theorem v0_pres_below ss out :
+    (forall s a d t1 i, In s ss -> all_clean_below p [s] -> f s (TDisj a d) = Ok t1 ->
+                        (any_sub p i (TDisj a d) = false -> any_sub p i t1 = false) /\
+                        (any_below p (TDisj a d) = false -> any_below p t1 = false)) ->
+    all_clean_below p ss -> visit_schemas_disj0 f ss = Ok out -> all_clean_below p out.
+  Proof.
+    intros Hf Hc H o' Ho'.
+    destruct (visit_schemas_disj0_objects _ _ _ _ H Ho') as [s [o [t' [Hs [Ho [Hv Heq]]]]]]. subst o'. simpl.
+    pose proof (all_clean_below_single _ _ _ Hc Hs) as Hcs.
+    apply visit_disj0_vrel in Hv.
+    refine (proj1 (vrel_pres_below unit (lift0 (f s)) p p (fun _ _ => True) (fun _ => True)
+                                   (fun _ _ _ => I) p_array p_map p_inter (fun i a dh fs fs' _ => p_struct i a dh fs fs') (fun _ _ _ X => X)
+                                   _ tt (o_type o) t' tt _ Hv _ I)).
+    - intros st a d t1 st1 i Hd Hcd _. apply lift0_inv in Hd. destruct (Hf s a d t1 i Hs Hcs Hd) as [X _].
+      split; [apply X; assumption|split; exact I].
+    - intros a d E Hd Hb _. rewrite E in Hd. apply lift0_inv in Hd. destruct (Hf s a d t' false Hs Hcs Hd) as [_ Y].
+      split; [apply Y; rewrite <- E; assumption|exact I].
+    - apply Hc. eapply objects_of_single; eassumption.
+  Qed.
+End V0Below.
+
+Section UnderNui.
+  Variable p : bool -> ty -> bool.
+  Let c := por p_nui p.
+  (* what is asked of p *)
+  Hypothesis hp_array : forall inter a v v', p inter (TArray a v) = false -> p inter (TArray a v') = false.
+  Hypothesis hp_map : forall inter a i v i' v', p inter (TMap a i v) = false -> p inter (TMap a i' v') = false.
+  Hypothesis hp_inter : forall inter a bs bs', p inter (TInter a bs) = false -> p inter (TInter a bs') = false.
+  Hypothesis hp_disj : forall inter a a' d d', p inter (TDisj a' d') = p inter (TDisj a d).
+  Hypothesis hp_setnull : forall inter t b, p inter (set_nullable t b) = p inter t.
+
+  Lemma c_array inter a v v' : c inter (TArray a v) = false -> c inter (TArray a v') = false.
+  Proof. unfold c, por, p_nui. simpl. rewrite !andb_false_r. simpl. apply hp_array. Qed.
+  Lemma c_map inter a i v i' v' : c inter (TMap a i v) = false -> c inter (TMap a i' v') = false.
+  Proof. unfold c, por, p_nui. simpl. rewrite !andb_false_r. simpl. apply hp_map. Qed.
+  Lemma c_inter inter a bs bs' : c inter (TInter a bs) = false -> c inter (TInter a bs') = false.
+  Proof. unfold c, por, p_nui. simpl. rewrite !andb_false_r. simpl. apply hp_inter. Qed.
+  Lemma c_setnull inter t b : c inter (set_nullable t b) = c inter t.
+  Proof. unfold c, por. rewrite hp_setnull. destruct t; reflexivity. Qed.
+
+  (* a visited union is outside compositions, and its branches are clean there *)
+  Lemma union_case inter a d : any_sub c inter (TDisj a d) = false ->
+    inter = false /\ p false (TDisj a d) = false /\ forall b, In b (d_branches d) -> any_sub c false b = false.
+  Proof.
+    intros H. simpl in H. apply orb_false_iff in H. destruct H as [Hn Hb].
+    unfold c, por, p_nui in Hn. simpl in Hn. apply orb_false_iff in Hn. destruct Hn as [Hi Hp].
+    rewrite andb_true_r in Hi. subst inter. split; [reflexivity|split; [assumption|]].
+    exact (proj1 (existsb_false_iff _ _) Hb).
+  Qed.
+  Lemma rebuild_union a d bs' disc m :
+    p false (TDisj a d) = false -> (forall b, In b bs' -> any_sub c false b = false) ->
+    any_sub c false (TDisj a (mkDisj bs' disc m)) = false.
+  Proof.
+    intros Hp Hb. simpl. apply orb_false_iff. split; [|apply existsb_false_iff; assumption].
+    unfold c, por, p_nui. simpl. rewrite (hp_disj false a a d (mkDisj bs' disc m)). assumption.
+  Qed.
+  Lemma rebuild_union_below a bs' disc m :
+    (forall b, In b bs' -> any_sub c false b = false) -> any_below c (TDisj a (mkDisj bs' disc m)) = false.
+  Proof. intros Hb. unfold any_below. simpl. rewrite existsb_map_eq. simpl. apply existsb_false_iff. assumption. Qed.
+  Lemma below_branches a d : any_below c (TDisj a d) = false -> forall b, In b (d_branches d) -> any_sub c false b = false.
+  Proof. unfold any_below. simpl. rewrite existsb_map_eq. simpl. intros H. exact (proj1 (existsb_false_iff _ _) H). Qed.
+
+  Lemma pool_sub s : all_clean c [s] ->
+    forall k o a' d', In (k, o) (s_objects s) -> o_type o = TDisj a' d' -> forall rb, In rb (d_branches d') -> any_sub c false rb = false.
+  Proof.
+    intros Hc k o a' d' Hin E rb Hrb. pose proof (Hc o (in_single_objects _ _ _ Hin)) as H. rewrite E in H.
+    destruct (union_case _ _ _ H) as [_ [_ Hb]]. apply Hb. assumption.
+  Qed.
+  Lemma pool_below s : all_clean_below c [s] ->
+    forall k o a' d', In (k, o) (s_objects s) -> o_type o = TDisj a' d' -> forall rb, In rb (d_branches d') -> any_sub c false rb = false.
+  Proof.
+    intros Hc k o a' d' Hin E rb Hrb. pose proof (Hc o (in_single_objects _ _ _ Hin)) as H. rewrite E in H.
+    eapply below_branches; eassumption.
+  Qed.
+
+  (* the result of each callback on a clean union outside compositions *)
+  Definition leaf_ok (t : ty) : Prop := forall i, any_sub c i t = false.
+
+  Lemma dwnto_result a d t1 :
+    dwnto_disj (TDisj a d) = Ok t1 -> p false (TDisj a d) = false -> (forall b, In b (d_branches d) -> any_sub c false b = false) ->
+    any_sub c false t1 = false /\ any_below c t1 = false /\ keeps_nullable (TDisj a d) t1.
+  Proof.
+    intros Hd Hp Hb. destruct (dwnto_disj_shape _ _ _ Hd) as [->|[b [Hin [_ ->]]]].
+    - split; [destruct d; eapply rebuild_union; [eassumption|assumption]|split; [destruct d; apply rebuild_union_below; assumption|intros X; exact X]].
+    - assert (any_sub c false (set_nullable b true) = false) as Hs.
+      { rewrite any_sub_set_nullable_gen; [apply Hb; assumption|apply c_setnull]. }
+      split; [assumption|split; [apply any_below_of_sub; assumption|]]. intros _. destruct b; reflexivity.
+  Qed.
+  Lemma docte_result ss a d t1 :
+    (forall i a0 vs, p i (TEnum a0 vs) = false) ->
+    docte_disj ss (TDisj a d) = Ok t1 -> p false (TDisj a d) = false -> (forall b, In b (d_branches d) -> any_sub c false b = false) ->
+    any_sub c false t1 = false /\ any_below c t1 = false /\ keeps_nullable (TDisj a d) t1.
+  Proof.
+    intros He Hd Hp Hb. destruct (docte_disj_shape _ _ _ _ Hd) as [->|[vs ->]].
+    - split; [destruct d; eapply rebuild_union; [eassumption|assumption]|split; [destruct d; apply rebuild_union_below; assumption|intros X; exact X]].
+    - split; [|split; [reflexivity|intros X; exact X]]. simpl. unfold c, por, p_nui. simpl. rewrite He. reflexivity.
+  Qed.
+  Lemma fd_result s a d t1 :
+    (forall k o a' d', In (k, o) (s_objects s) -> o_type o = TDisj a' d' -> forall rb, In rb (d_branches d') -> any_sub c false rb = false) ->
+    fd_disj s (TDisj a d) = Ok t1 -> p false (TDisj a d) = false -> (forall b, In b (d_branches d) -> any_sub c false b = false) ->
+    any_sub c false t1 = false /\ any_below c t1 = false /\ keeps_nullable (TDisj a d) t1.
+  Proof.
+    intros Hpool Hd Hp Hb.
+    destruct (fd_disj_branches (fun b => any_sub c false b = false) s a d t1 Hb Hpool Hd) as [bs' [-> Hbs']].
+    split; [eapply rebuild_union; [eassumption|assumption]|split; [apply rebuild_union_below; assumption|intros X; exact X]].
+  Qed.
+  Lemma dim_result s a d t1 :
+    dim_disj s (TDisj a d) = Ok t1 -> p false (TDisj a d) = false -> (forall b, In b (d_branches d) -> any_sub c false b = false) ->
+    any_sub c false t1 = false /\ any_below c t1 = false /\ keeps_nullable (TDisj a d) t1.
+  Proof.
+    intros Hd Hp Hb. destruct (dim_disj_shape _ _ _ _ Hd) as [disc [m ->]].
+    split; [eapply rebuild_union; [eassumption|assumption]|split; [apply rebuild_union_below; assumption|intros X; exact X]].
+  Qed.
+  Lemma udta_result s a d t1 :
+    (forall i a0 k v cs, p i (TScalar a0 k v cs) = false) ->
+    udta_disj s (TDisj a d) = Ok t1 -> p false (TDisj a d) = false -> (forall b, In b (d_branches d) -> any_sub c false b = false) ->
+    any_sub c false t1 = false /\ any_below c t1 = false.
+  Proof.
+    intros Hs Hd Hp Hb. destruct (udta_disj_shape _ _ _ _ Hd) as [->|[-> _]].
+    - split; [destruct d; eapply rebuild_union; [eassumption|assumption]|destruct d; apply rebuild_union_below; assumption].
+    - split; [|reflexivity]. simpl. unfold c, por, p_nui. simpl. rewrite Hs. reflexivity.
+  Qed.
+End UnderNui.
+
+Lemma all_clean_por p q ss : all_clean (por p q) ss <-> all_clean p ss /\ all_clean q ss.
+Proof.
+  split.
+  - intros H. split; intros o Ho; pose proof (H o Ho) as Hx; apply any_sub_or_false in Hx; destruct Hx; assumption.
+  - intros [H1 H2] o Ho. apply any_sub_or_false. split; [apply H1|apply H2]; assumption.
+Qed.
+
+(* ---- predicates checked at every position (root included) ---- *)
+Section SubNui.
+  Variable p : bool -> ty -> bool.
+  Hypothesis hp_array : forall inter a v v', p inter (TArray a v) = false -> p inter (TArray a v') = false.
+  Hypothesis hp_map : forall inter a i v i' v', p inter (TMap a i v) = false -> p inter (TMap a i' v') = false.
+  Hypothesis hp_inter : forall inter a bs bs', p inter (TInter a bs) = false -> p inter (TInter a bs') = false.
+  Hypothesis hp_disj : forall inter a a' d d', p inter (TDisj a' d') = p inter (TDisj a d).
+  Hypothesis hp_setnull : forall inter t b, p inter (set_nullable t b) = p inter t.
+  Hypothesis hp_struct : forall inter a dh fs fs',
+      Forall2 (fun f f' => f_required f' = f_required f /\ keeps_nullable (f_type f) (f_type f')) fs fs' ->
+      p inter (TStruct a dh fs) = false -> p inter (TStruct a dh fs') = false.
+  Let c := por p_nui p.
+
+  Lemma c_struct inter a dh fs fs' :
+    Forall2 (fun f f' => f_required f' = f_required f /\ keeps_nullable (f_type f) (f_type f')) fs fs' ->
+    c inter (TStruct a dh fs) = false -> c inter (TStruct a dh fs') = false.
+  Proof. unfold c, por, p_nui. simpl. rewrite !andb_false_r. simpl. apply hp_struct. Qed.
+
+  Lemma sub_nui_core (f : schema -> ty -> res ty) ss out :
+    (forall s a d t1, In s ss -> all_clean c [s] -> f s (TDisj a d) = Ok t1 -> p false (TDisj a d) = false ->
+                      (forall b, In b (d_branches d) -> any_sub c false b = false) ->
+                      any_sub c false t1 = false /\ keeps_nullable (TDisj a d) t1) ->
+    all_clean p_nui ss -> all_clean p ss -> visit_schemas_disj0 f ss = Ok out -> all_clean p_nui out /\ all_clean p out.
+  Proof.
+    intros Hf Hn Hc H. apply all_clean_por.
+    refine (v0_pres c keeps_nullable keeps_nullable_attrs (c_array p hp_array) (c_map p hp_map) (c_inter p hp_inter) c_struct
+                    f ss out _ (proj2 (all_clean_por _ _ _) (conj Hn Hc)) H).
+    intros s a d t1 i Hs Hcs Hd Hcd. destruct (union_case p _ _ _ Hcd) as [-> [Hp Hb]]. eapply Hf; eassumption.
+  Qed.
+
+  Theorem dwnto_sub_nui ss out : all_clean p_nui ss -> all_clean p ss ->
+    disjunction_with_null_to_optional ss = Ok out -> all_clean p_nui out /\ all_clean p out.
+  Proof.
+    intros Hn Hc H. unfold disjunction_with_null_to_optional in H. apply (sub_nui_core _ _ _ (fun s a d t1 _ _ Hd Hp Hb =>
+      let X := dwnto_result p hp_disj hp_setnull a d t1 Hd Hp Hb in conj (proj1 X) (proj2 (proj2 X))) Hn Hc H).
+  Qed.
+  Theorem docte_sub_nui ss out : (forall i a0 vs, p i (TEnum a0 vs) = false) -> all_clean p_nui ss -> all_clean p ss ->
+    disjunction_of_constants_to_enum ss = Ok out -> all_clean p_nui out /\ all_clean p out.
+  Proof.
+    intros He Hn Hc H. unfold disjunction_of_constants_to_enum in H. apply (sub_nui_core _ _ _ (fun s a d t1 _ _ Hd Hp Hb =>
+      let X := docte_result p hp_disj ss a d t1 He Hd Hp Hb in conj (proj1 X) (proj2 (proj2 X))) Hn Hc H).
+  Qed.
+  Theorem fd_sub_nui ss out : all_clean p_nui ss -> all_clean p ss ->
+    flatten_disjunctions ss = Ok out -> all_clean p_nui out /\ all_clean p out.
+  Proof.
+    intros Hn Hc H. unfold flatten_disjunctions in H. apply (sub_nui_core _ _ _ (fun s a d t1 _ Hcs Hd Hp Hb =>
+      let X := fd_result p hp_disj s a d t1 (pool_sub p s Hcs) Hd Hp Hb in conj (proj1 X) (proj2 (proj2 X))) Hn Hc H).
+  Qed.
+  Theorem dim_sub_nui ss out : all_clean p_nui ss -> all_clean p ss ->
+    disjunction_infer_mapping ss = Ok out -> all_clean p_nui out /\ all_clean p out.
+  Proof.
+    intros Hn Hc H. unfold disjunction_infer_mapping in H. apply (sub_nui_core _ _ _ (fun s a d t1 _ _ Hd Hp Hb =>
+      let X := dim_result p hp_disj s a d t1 Hd Hp Hb in conj (proj1 X) (proj2 (proj2 X))) Hn Hc H).
+  Qed.
+End SubNui.
+
+(* ---- predicates checked below the root of an object ---- *)
+Section BelowNui.
+  Variable p : bool -> ty -> bool.
+  Hypothesis hp_array : forall inter a v v', p inter (TArray a v) = false -> p inter (TArray a v') = false.
+  Hypothesis hp_map : forall inter a i v i' v', p inter (TMap a i v) = false -> p inter (TMap a i' v') = false.
+  Hypothesis hp_inter : forall inter a bs bs', p inter (TInter a bs) = false -> p inter (TInter a bs') = false.
+  Hypothesis hp_disj : forall inter a a' d d', p inter (TDisj a' d') = p inter (TDisj a d).
+  Hypothesis hp_setnull : forall inter t b, p inter (set_nullable t b) = p inter t.
+  Hypothesis hp_struct : forall inter a dh fs fs', p inter (TStruct a dh fs) = false -> p inter (TStruct a dh fs') = false.
+  Let c := por p_nui p.
+
+  Lemma c_struct_b inter a dh fs fs' : c inter (TStruct a dh fs) = false -> c inter (TStruct a dh fs') = false.
+  Proof. unfold c, por, p_nui. simpl. rewrite !andb_false_r. simpl. apply hp_struct. Qed.
+
+  Lemma all_clean_below_c ss : all_clean p_nui ss -> all_clean_below p ss -> all_clean_below c ss.
+  Proof. intros Hn Hc o Ho. apply any_below_or_false. split; [apply any_below_of_sub; apply Hn; assumption|apply Hc; assumption]. Qed.
+
+  Lemma below_nui_core (f : schema -> ty -> res ty) ss out :
+    (forall s a d t1, In s ss -> all_clean_below c [s] -> f s (TDisj a d) = Ok t1 ->
+                      (forall b, In b (d_branches d) -> any_sub c false b = false) ->
+                      (p false (TDisj a d) = false -> any_sub c false t1 = false) /\ any_below c t1 = false) ->
+    all_clean p_nui ss -> all_clean_below p ss -> visit_schemas_disj0 f ss = Ok out -> all_clean_below p out.
+  Proof.
+    intros Hf Hn Hc H.
+    assert (all_clean_below c out) as Hout.
+    { refine (v0_pres_below c (c_array p hp_array) (c_map p hp_map) (c_inter p hp_inter) c_struct_b f ss out _
+                            (all_clean_below_c _ Hn Hc) H).
+      intros s a d t1 i Hs Hcs Hd. split.
+      - intros Hcd. destruct (union_case p _ _ _ Hcd) as [-> [Hp Hb]]. apply (proj1 (Hf s a d t1 Hs Hcs Hd Hb)). assumption.
+      - intros Hbd. apply (proj2 (Hf s a d t1 Hs Hcs Hd (below_branches p a d Hbd))). }
+    intros o Ho. exact (proj2 (proj1 (any_below_or_false _ _ _) (Hout o Ho))).
+  Qed.
+
+  Theorem dwnto_below_nui ss out : all_clean p_nui ss -> all_clean_below p ss ->
+    disjunction_with_null_to_optional ss = Ok out -> all_clean_below p out.
+  Proof.
+    intros Hn Hc H. unfold disjunction_with_null_to_optional in H. apply (below_nui_core _ ss out) with (4 := H); try assumption.
+    intros s a d t1 _ _ Hd Hb. destruct (dwnto_disj_shape _ _ _ Hd) as [->|[b [Hin [_ ->]]]].
+    - split; [intros Hp; destruct d; eapply rebuild_union; [exact hp_disj|eassumption|assumption]|destruct d; apply rebuild_union_below; assumption].
+    - assert (any_sub c false (set_nullable b true) = false) as Hs.
+      { rewrite any_sub_set_nullable_gen; [apply Hb; assumption|apply (c_setnull p hp_setnull)]. }
+      split; [intros _; assumption|apply any_below_of_sub; assumption].
+  Qed.
+  Theorem docte_below_nui ss out : all_clean p_nui ss -> all_clean_below p ss -> (forall i a0 vs, p i (TEnum a0 vs) = false) ->
+    disjunction_of_constants_to_enum ss = Ok out -> all_clean_below p out.
+  Proof.
+    intros Hn Hc He H. unfold disjunction_of_constants_to_enum in H. apply (below_nui_core _ ss out) with (4 := H); try assumption.
+    intros s a d t1 _ _ Hd Hb. destruct (docte_disj_shape _ _ _ _ Hd) as [->|[vs ->]].
+    - split; [intros Hp; destruct d; eapply rebuild_union; [exact hp_disj|eassumption|assumption]|destruct d; apply rebuild_union_below; assumption].
+    - split; [|reflexivity]. intros _. simpl. unfold c, por, p_nui. simpl. rewrite He. reflexivity.
+  Qed.
+  Theorem fd_below_nui ss out : all_clean p_nui ss -> all_clean_below p ss ->
+    flatten_disjunctions ss = Ok out -> all_clean_below p out.
+  Proof.
+    intros Hn Hc H. unfold flatten_disjunctions in H. apply (below_nui_core _ ss out) with (4 := H); try assumption.
+    intros s a d t1 _ Hcs Hd Hb.
+    destruct (fd_disj_branches (fun b => any_sub c false b = false) s a d t1 Hb (pool_below p s Hcs) Hd) as [bs' [-> Hbs']].
+    split; [intros Hp; eapply rebuild_union; [exact hp_disj|eassumption|assumption]|apply rebuild_union_below; assumption].
+  Qed.
+  Theorem dim_below_nui ss out : all_clean p_nui ss -> all_clean_below p ss ->
+    disjunction_infer_mapping ss = Ok out -> all_clean_below p out.
+  Proof.
+    intros Hn Hc H. unfold disjunction_infer_mapping in H. apply (below_nui_core _ ss out) with (4 := H); try assumption.
+    intros s a d t1 _ _ Hd Hb. destruct (dim_disj_shape _ _ _ _ Hd) as [disc [m ->]].
+    split; [intros Hp; eapply rebuild_union; [exact hp_disj|eassumption|assumption]|apply rebuild_union_below; assumption].
+  Qed.
+  Theorem udta_below_nui ss out : all_clean p_nui ss -> all_clean_below p ss -> (forall i a0 k v cs, p i (TScalar a0 k v cs) = false) ->
+    undiscriminated_disjunction_to_any ss = Ok out -> all_clean_below p out.
+  Proof.
+    intros Hn Hc Hs H. unfold undiscriminated_disjunction_to_any in H. apply (below_nui_core _ ss out) with (4 := H); try assumption.
+    intros s a d t1 _ _ Hd Hb. destruct (udta_disj_shape _ _ _ _ Hd) as [->|[-> _]].
+    - split; [intros Hp; destruct d; eapply rebuild_union; [exact hp_disj|eassumption|assumption]|destruct d; apply rebuild_union_below; assumption].
+    - split; [|reflexivity]. intros _. simpl. unfold c, por, p_nui. simpl. rewrite Hs. reflexivity.
+  Qed.
+End BelowNui.
+
+(* =====================================================================================
+   instances: NUI itself, I1 (no anonymous struct), I2 (optional => nullable), I5 (no
+   anonymous enum)
+   ===================================================================================== *)
+Ltac nui_side := try (intros; unfold p_nui, p_struct, p_enum, p_optnn in *; simpl in *; (reflexivity || assumption || apply andb_false_r));
+                 try (intros ? x ?; destruct x; reflexivity).
+
+Lemma nui_flag : forall t, any_sub p_nui true t = false -> any_sub p_nui false t = false.
+Proof.
+  induction t as [a d IH|a v IH|a vs IH|a x v IHi IHv|a dh fs IHd IHf|a pk n|a pk n v|a k v cs|a bs IH|a v|a k]
+    using ty_ind'; simpl; intros H; try reflexivity.
+  - discriminate.
+  - apply IH. assumption.
+  - apply orb_false_iff in H. destruct H as [H1 H2]. rewrite (IHi H1), (IHv H2). reflexivity.
+  - apply existsb_false_iff. intros f Hf. rewrite Forall_forall in IHf. apply IHf; [assumption|].
+    exact (proj1 (existsb_false_iff _ _) H f Hf).
+  - assumption.
+Qed.
+
+Definition srel_nui' := fun t t' inter (H : srel t t') => srel_nui t t' inter H.
+Definition srel_optnn' := fun t t' inter (H : srel t t') => srel_optnn t t' inter H.
+
+(* NUI *)
+Theorem nui_astn ss : all_clean p_nui ss -> all_clean p_nui (anonymous_structs_to_named ss).
+Proof. apply astn_pres. exact srel_nui'. Qed.
+Theorem nui_nrfn ss : all_clean p_nui ss -> all_clean p_nui (not_required_field_as_nullable_type ss).
+Proof. apply nrfn_pres. exact srel_nui'. Qed.
+Theorem nui_aete ss : all_clean p_nui ss -> all_clean p_nui (anonymous_enum_to_explicit_type ss).
+Proof. apply aete_pres; [exact srel_nui'|reflexivity]. Qed.
+Theorem nui_pev ss out : all_clean p_nui ss -> prefix_enum_values ss = Ok out -> all_clean p_nui out.
+Proof. apply pev_pres. reflexivity. Qed.
+Theorem nui_doaste ss out : entry_leaf ss -> all_clean p_nuf ss -> all_clean p_nui ss ->
+  disjunction_of_anonymous_structs_to_explicit ss = Ok out -> all_clean p_nui out.
+Proof. intros He Hn Hc. apply doaste_pres; try assumption; [exact srel_nui'|exact nui_flag]. Qed.
+Theorem nui_dwnto ss out : all_clean p_nui ss -> disjunction_with_null_to_optional ss = Ok out -> all_clean p_nui out.
+Proof. intros Hn H. eapply proj1. eapply (dwnto_sub_nui p_nui); try eassumption; nui_side. Qed.
+Theorem nui_docte ss out : all_clean p_nui ss -> disjunction_of_constants_to_enum ss = Ok out -> all_clean p_nui out.
+Proof. intros Hn H. eapply proj1. eapply (docte_sub_nui p_nui); try eassumption; nui_side. Qed.
+Theorem nui_fd ss out : all_clean p_nui ss -> flatten_disjunctions ss = Ok out -> all_clean p_nui out.
+Proof. intros Hn H. eapply proj1. eapply (fd_sub_nui p_nui); try eassumption; nui_side. Qed.
+Theorem nui_dim ss out : all_clean p_nui ss -> disjunction_infer_mapping ss = Ok out -> all_clean p_nui out.
+Proof. intros Hn H. eapply proj1. eapply (dim_sub_nui p_nui); try eassumption; nui_side. Qed.
+Theorem nui_udta ss out : all_clean p_nui ss -> undiscriminated_disjunction_to_any ss = Ok out -> all_clean p_nui out.
+Proof.
+  intros Hn H. unfold undiscriminated_disjunction_to_any in H.
+  refine (v0_pres p_nui (fun _ _ => True) (fun _ _ _ => I) _ _ _ _ _ ss out _ Hn H); nui_side.
+  intros s a d t1 i _ _ Hd Hcd. split; [|exact I].
+  destruct (udta_disj_shape _ _ _ _ Hd) as [->|[-> _]]; [assumption|]. unfold p_nui. simpl. rewrite andb_false_r. reflexivity.
+Qed.
+
+(* ---------- after AnonymousStructsToNamed, DisjunctionOfAnonymousStructsToExplicit has nothing
+   to do: with no anonymous struct outside compositions and no union inside them, no union
+   has a struct branch ---------- *)
+Definition q_sb (_ : bool) (t : ty) : bool :=
+  match t with TDisj _ d => existsb is_struct (d_branches d) | _ => false end.
+
+Lemma nui_true_union : forall t, any_sub p_nui true t = false -> any_sub p_union true t = false.
+Proof.
+  induction t as [a d IH|a v IH|a vs IH|a x v IHi IHv|a dh fs IHd IHf|a pk n|a pk n v|a k v cs|a bs IH|a v|a k]
+    using ty_ind'; simpl; intros H; try reflexivity.
+  - discriminate.
+  - apply IH. assumption.
+  - apply orb_false_iff in H. destruct H as [H1 H2]. rewrite (IHi H1), (IHv H2). reflexivity.
+  - apply existsb_false_iff. intros f Hf. rewrite Forall_forall in IHf. apply IHf; [assumption|].
+    exact (proj1 (existsb_false_iff _ _) H f Hf).
+  - apply existsb_false_iff. intros b Hb. rewrite Forall_forall in IH. apply IH; [assumption|].
+    exact (proj1 (existsb_false_iff _ _) H b Hb).
+Qed.
+
+Lemma union_free_sb t i j : any_sub p_union i t = false -> any_sub q_sb j t = false.
+Proof.
+  intros H. rewrite (p_union_irrel t i j) in H. revert H. apply any_sub_weaken.
+  intros x y Hy. destruct y; try reflexivity. discriminate.
+Qed.
+
+Lemma sb_from_struct_nui : forall t, any_sub p_struct false t = false -> any_sub p_nui false t = false -> any_sub q_sb false t = false.
+Proof.
+  induction t as [a d IH|a v IH|a vs IH|a x v IHi IHv|a dh fs IHd IHf|a pk n|a pk n v|a k v cs|a bs IH|a v|a k]
+    using ty_ind'; simpl; intros Hs Hn; try reflexivity.
+  - apply orb_false_iff. split.
+    + apply existsb_false_iff. intros b Hb. pose proof (proj1 (existsb_false_iff _ _) Hs b Hb) as Hx.
+      apply any_sub_below in Hx. exact Hx.
+    + apply existsb_false_iff. intros b Hb. rewrite Forall_forall in IH.
+      apply IH; [assumption|exact (proj1 (existsb_false_iff _ _) Hs b Hb)|exact (proj1 (existsb_false_iff _ _) Hn b Hb)].
+  - apply IH; assumption.
+  - apply orb_false_iff in Hs. destruct Hs as [S1 S2]. apply orb_false_iff in Hn. destruct Hn as [N1 N2].
+    rewrite (IHi S1 N1), (IHv S2 N2). reflexivity.
+  - discriminate.
+  - apply existsb_false_iff. intros b Hb. eapply union_free_sb. apply nui_true_union.
+    exact (proj1 (existsb_false_iff _ _) Hn b Hb).
+Qed.
+
+Lemma sb_from_struct_nui_root t : any_below p_struct t = false -> any_sub p_nui false t = false -> any_sub q_sb false t = false.
+Proof.
+  intros Hs Hn.
+  destruct t as [a d|a v|a vs|a x v|a dh fs|a pk n|a pk n v|a k v cs|a bs|a v|a k]; unfold any_below in Hs; simpl in *; try reflexivity.
+  - rewrite existsb_map_eq in Hs. simpl in Hs. apply orb_false_iff. split.
+    + apply existsb_false_iff. intros b Hb. pose proof (proj1 (existsb_false_iff _ _) Hs b Hb) as Hx.
+      apply any_sub_below in Hx. exact Hx.
+    + apply existsb_false_iff. intros b Hb.
+      apply sb_from_struct_nui; [exact (proj1 (existsb_false_iff _ _) Hs b Hb)|exact (proj1 (existsb_false_iff _ _) Hn b Hb)].
+  - rewrite orb_false_r in Hs. apply sb_from_struct_nui; assumption.
+  - rewrite orb_false_r in Hs. apply orb_false_iff in Hs. destruct Hs as [S1 S2]. apply orb_false_iff in Hn. destruct Hn as [N1 N2].
+    rewrite (sb_from_struct_nui _ S1 N1), (sb_from_struct_nui _ S2 N2). reflexivity.
+  - rewrite existsb_map_eq in Hs. simpl in Hs. apply existsb_false_iff. intros f Hf.
+    apply sb_from_struct_nui; [exact (proj1 (existsb_false_iff _ _) Hs f Hf)|exact (proj1 (existsb_false_iff _ _) Hn f Hf)].
+  - apply existsb_false_iff. intros b Hb. eapply union_free_sb. apply nui_true_union.
+    exact (proj1 (existsb_false_iff _ _) Hn b Hb).
+Qed.
+
+Lemma q_sb_irrel t i j : any_sub q_sb i t = any_sub q_sb j t.
+Proof. apply any_sub_inter_irrel. reflexivity. Qed.
+
+Lemma doaste_branches_none pkg : forall l i st, existsb is_struct l = false -> doaste_branches pkg i l st = (l, st).
+Proof.
+  induction l as [|b r IH]; intros i st H; [reflexivity|]. simpl in H. apply orb_false_iff in H. destruct H as [Hb Hr].
+  simpl. destruct b; try discriminate; rewrite (IH (S i) st Hr); reflexivity.
+Qed.
+
+Lemma doaste_id2 pkg : forall t st, any_sub q_sb false t = false -> doaste_ty pkg st t = (t, st).
+Proof.
+  induction t as [a d IH|a v IH|a vs IH|a i v IHi IHv|a dh fs IHd IHf|a pk n|a pk n v|a k v cs|a bs IH|a v|a k]
+    using ty_ind'; intros st H; try reflexivity.
+  - rewrite doaste_disj. destruct (_ && _); [reflexivity|]. simpl in H. apply orb_false_iff in H. destruct H as [H1 _].
+    rewrite (doaste_branches_none pkg _ 0 st H1). simpl. destruct d; reflexivity.
+  - rewrite doaste_array. simpl in H. rewrite (IH st H). reflexivity.
+  - rewrite doaste_map. simpl in H. apply orb_false_iff in H. destruct H as [Hi Hv].
+    rewrite (IHi st Hi). simpl. rewrite (IHv st Hv). reflexivity.
+  - rewrite doaste_struct. simpl in H.
+    assert (doaste_fields pkg fs st = (fs, st)) as E.
+    { revert st. induction fs as [|f r IHr]; intros st; [reflexivity|]. simpl.
+      inversion IHf as [|? ? Hf Hr]; subst. simpl in H. apply orb_false_iff in H. destruct H as [H1 H2].
+      rewrite (Hf st H1). rewrite (IHr Hr H2 st). destruct f; reflexivity. }
+    rewrite E. reflexivity.
+  - rewrite doaste_inter. simpl in H.
+    assert (doaste_list pkg bs st = (bs, st)) as E.
+    { revert st. induction bs as [|b r IHr]; intros st; [reflexivity|]. simpl.
+      inversion IH as [|? ? Hb Hr]; subst. simpl in H. apply orb_false_iff in H. destruct H as [H1 H2].
+      rewrite (q_sb_irrel b true false) in H1. rewrite (Hb st H1). rewrite (IHr Hr H2 st). reflexivity. }
+    rewrite E. reflexivity.
+Qed.
+
+Theorem doaste_noop ss out :
+  all_clean_below p_struct ss -> all_clean p_nui ss -> entry_leaf ss ->
+  disjunction_of_anonymous_structs_to_explicit ss = Ok out ->
+  forall o', In o' (objects_of out) -> In o' (objects_of ss).
+Proof.
+  intros Hs Hn He H o' Ho'. unfold disjunction_of_anonymous_structs_to_explicit in H.
+  destruct (in_objects_of_mapM _ _ _ _ H Ho') as [s [s' [k [Hin [HF Hko]]]]].
+  assert (forall k0 o0, In (k0, o0) (s_objects s) -> any_sub q_sb false (o_type o0) = false) as Hobj.
+  { intros k0 o0 Hx. assert (In o0 (objects_of ss)) as Hy by (apply in_objects_of; exists s, k0; split; assumption).
+    apply sb_from_struct_nui_root; [apply Hs|apply Hn]; assumption. }
+  destruct (visit_schema_st_objects [] (fun st t => Ok (doaste_ty (s_pkg s) st t)) (map snd)
+              (fun t => is_leaf t \/ any_sub q_sb false t = false) (fun st => st = []) s s') as [final [HQf Hobjs]]; try assumption.
+  - intros st t t' st' HC Hv HQ. inversion Hv as [Hv']. destruct HC as [Hl|Hc].
+    + rewrite (doaste_leaf _ _ _ Hl) in Hv'. inversion Hv'; subst. reflexivity.
+    + rewrite (doaste_id2 _ _ _ Hc) in Hv'. inversion Hv'; subst. reflexivity.
+  - reflexivity.
+  - left. apply He. assumption.
+  - intros [k0 o0] Hx. right. apply (Hobj k0 o0 Hx).
+  - destruct (Hobjs k o' Hko) as [[[k0 o0] [st [t' [st' [Hx [HQ [Hv Heq]]]]]]]|Hnew].
+    + simpl in *. inversion Hv as [Hv']. rewrite (doaste_id2 _ _ _ (Hobj k0 o0 Hx)) in Hv'. inversion Hv'; subst.
+      assert (set_otype o0 (o_type o0) = o0) as E by (destruct o0; reflexivity). rewrite E.
+      apply in_objects_of. exists s, k0. split; assumption.
+    + subst final. contradiction.
+Qed.
+
+(* ---------- DisjunctionToType, under NUI ---------- *)
+Definition dtt_fields (bs : list ty) : list field :=
+  map (fun b => mkField (type_name b) [] (set_nullable b true) false) (filter (fun b => negb (is_null b)) bs).
+
+Lemma dtt_disj_class s st a d t' st' : dtt_disj s st (TDisj a d) = Ok (t', st') ->
+  is_simple t' /\ keeps_nullable (TDisj a d) t' /\
+  (st' = st \/ exists name attrs dh, st' = objs_set st name (new_object (s_pkg s) name (TStruct attrs dh (dtt_fields (d_branches d))))).
+Proof.
+  intros H. unfold dtt_disj in H.
+  destruct (single_type_scalars s (d_branches d)) as [[k|]| | |]; simpl in H; try discriminate.
+  - inversion H; subst. split; [exact I|split; [intros X; exact X|left; reflexivity]].
+  - assert (forall x n, keeps_nullable (TDisj a d) (TRef (mk_attrs (nullable a || has_null_type (d_branches d)) DNil (hints a)) x n)) as Hk.
+    { intros x n Hn. simpl in *. rewrite Hn. reflexivity. }
+    match type of H with context [objs_has st ?n] => destruct (objs_has st n) end.
+    + inversion H; subst. split; [exact I|split; [apply Hk|left; reflexivity]].
+    + match type of H with (do _ <- ?X ; _) = _ => destruct X as [dh| | |] end; simpl in H; try discriminate.
+      inversion H; subst. split; [exact I|split; [apply Hk|]]. right. eexists. eexists. eexists. reflexivity.
+Qed.
+
+Lemma visit_disj_leaf {S} (f : S -> ty -> res (ty * S)) st t : is_leaf t -> visit_disj f st t = Ok (t, st).
+Proof. destruct t; simpl; intros H; try contradiction; reflexivity. Qed.
+
+Section DttBelow.
+  Variable p : bool -> ty -> bool.
+  Hypothesis hp_array : forall inter a v v', p inter (TArray a v) = false -> p inter (TArray a v') = false.
+  Hypothesis hp_map : forall inter a i v i' v', p inter (TMap a i v) = false -> p inter (TMap a i' v') = false.
+  Hypothesis hp_inter : forall inter a bs bs', p inter (TInter a bs) = false -> p inter (TInter a bs') = false.
+  Hypothesis hp_setnull : forall inter t b, p inter (set_nullable t b) = p inter t.
+  Hypothesis hp_struct : forall inter a dh fs fs', p inter (TStruct a dh fs) = false -> p inter (TStruct a dh fs') = false.
+  Hypothesis hp_simple : forall inter l, is_simple l -> p inter l = false.
+  Let c := por p_nui p.
+  Let Q (st : list (string * object)) : Prop := forall k o, In (k, o) st -> any_below p (o_type o) = false.
+
+  Lemma c_simple inter l : is_simple l -> any_sub c inter l = false.
+  Proof.
+    intros Hl. destruct l; simpl in Hl; try contradiction; simpl; unfold c, por, p_nui; simpl;
+      rewrite andb_false_r, hp_simple by exact I; reflexivity.
+  Qed.
+
+  Lemma dtt_step s st a d t' st' :
+    dtt_disj s st (TDisj a d) = Ok (t', st') -> (forall b, In b (d_branches d) -> any_sub c false b = false) -> Q st ->
+    (forall i, any_sub c i t' = false) /\ any_below c t' = false /\ Q st'.
+  Proof.
+    intros Hd Hb HQ. destruct (dtt_disj_class _ _ _ _ _ _ Hd) as [Hs [_ Hst]].
+    split; [intros i; apply c_simple; assumption|split; [destruct t'; simpl in Hs; try contradiction; reflexivity|]].
+    destruct Hst as [->|[name [attrs [dh ->]]]]; [assumption|].
+    intros k o Hin. apply objs_set_in_inv in Hin. destruct Hin as [Hin|Heq]; [eapply HQ; eassumption|subst o].
+    unfold any_below, dtt_fields. simpl. rewrite !existsb_map_eq. simpl. apply existsb_false_iff. intros b Hbin.
+    apply filter_In in Hbin. destruct Hbin as [Hbin _].
+    rewrite any_sub_set_nullable_gen; [|apply hp_setnull].
+    exact (proj2 (proj1 (any_sub_or_false _ _ _ _) (Hb b Hbin))).
+  Qed.
+
+  Lemma dtt_visit_below s st t t' st' :
+    visit_disj (dtt_disj s) st t = Ok (t', st') -> any_sub p_nui false t = false -> any_below p t = false -> Q st ->
+    any_below p t' = false /\ Q st'.
+  Proof.
+    intros Hv Hn Hp HQ. apply visit_disj_vrel in Hv.
+    assert (any_below c t = false) as Hc by (apply any_below_or_false; split; [apply any_below_of_sub; assumption|assumption]).
+    assert (any_below c t' = false /\ Q st') as [H1 H2]; [|split; [exact (proj2 (proj1 (any_below_or_false _ _ _) H1))|assumption]].
+    refine (vrel_pres_below _ (dtt_disj s) c c (fun _ _ => True) Q (fun _ _ _ => I)
+                            (c_array p hp_array) (c_map p hp_map) (c_inter p hp_inter)
+                            (fun i a dh fs fs' _ => c_struct_b p hp_struct i a dh fs fs') (fun _ _ _ X => X)
+                            _ st t t' st' _ Hv Hc HQ).
+    - intros st0 a d t1 st1 i Hd Hcd HQ0. simpl in Hcd. apply orb_false_iff in Hcd. destruct Hcd as [Hnode Hb].
+      assert (i = false) as ->.
+      { unfold c, por, p_nui in Hnode. simpl in Hnode. apply orb_false_iff in Hnode. destruct Hnode as [Hi _].
+        rewrite andb_true_r in Hi. exact Hi. }
+      destruct (dtt_step _ _ _ _ _ _ Hd (proj1 (existsb_false_iff _ _) Hb) HQ0) as [X [_ Z]]. split; [apply X|split; [exact I|assumption]].
+    - intros a d E Hd Hb HQ0. subst t.
+      destruct (dtt_step _ _ _ _ _ _ Hd (below_branches p a d Hb) HQ0) as [_ [Y Z]]. split; assumption.
+  Qed.
+
+  Theorem dtt_below_nui ss out :
+    all_clean p_nui ss -> all_clean_below p ss -> entry_leaf ss -> disjunction_to_type ss = Ok out -> all_clean_below p out.
+  Proof.
+    intros Hn Hc He H o' Ho'. unfold disjunction_to_type in H.
+    destruct (in_objects_of_mapM _ _ _ _ H Ho') as [s [s' [k [Hs [HF Hko]]]]].
+    assert (forall k0 o0, In (k0, o0) (s_objects s) -> any_sub p_nui false (o_type o0) = false /\ any_below p (o_type o0) = false) as Hobj.
+    { intros k0 o0 Hin. assert (In o0 (objects_of ss)) as Hx by (apply in_objects_of; exists s, k0; split; assumption).
+      split; [apply Hn|apply Hc]; assumption. }
+    destruct (visit_schema_st_objects [] (visit_disj (dtt_disj s)) (map snd)
+                (fun t => is_leaf t \/ (any_sub p_nui false t = false /\ any_below p t = false)) Q s s') as [final [HQf Hobjs]]; try assumption.
+    - intros st t t' st' HC Hv HQ. destruct HC as [Hl|[A B]].
+      + rewrite (visit_disj_leaf _ _ _ Hl) in Hv. inversion Hv; subst. assumption.
+      + exact (proj2 (dtt_visit_below _ _ _ _ _ Hv A B HQ)).
+    - intros k0 o0 [].
+    - left. apply He. assumption.
+    - intros [k0 o0] Hin. right. apply (Hobj k0 o0 Hin).
+    - destruct (Hobjs k o' Hko) as [[[k0 o0] [st [t' [st' [Hin [HQ [Hv Heq]]]]]]]|Hnew].
+      + subst o'. simpl in *. destruct (Hobj k0 o0 Hin) as [A B]. exact (proj1 (dtt_visit_below _ _ _ _ _ Hv A B HQ)).
+      + apply in_map_iff in Hnew. destruct Hnew as [[k1 o1] [Heq Hin]]. simpl in Heq. subst o1. exact (HQf k1 o' Hin).
+  Qed.
+End DttBelow.
+
+Section DttSub.
+  Variable p : bool -> ty -> bool.
+  Hypothesis hp_array : forall inter a v v', p inter (TArray a v) = false -> p inter (TArray a v') = false.
+  Hypothesis hp_map : forall inter a i v i' v', p inter (TMap a i v) = false -> p inter (TMap a i' v') = false.
+  Hypothesis hp_inter : forall inter a bs bs', p inter (TInter a bs) = false -> p inter (TInter a bs') = false.
+  Hypothesis hp_setnull : forall inter t b, p inter (set_nullable t b) = p inter t.
+  Hypothesis hp_struct : forall inter a dh fs fs',
+      Forall2 (fun f f' => f_required f' = f_required f /\ keeps_nullable (f_type f) (f_type f')) fs fs' ->
+      p inter (TStruct a dh fs) = false -> p inter (TStruct a dh fs') = false.
+  Hypothesis hp_simple : forall inter l, is_simple l -> p inter l = false.
+  Hypothesis hp_new : forall attrs dh bs, p false (TStruct attrs dh (dtt_fields bs)) = false.
+  Let c := por p_nui p.
+  Let Q (st : list (string * object)) : Prop := forall k o, In (k, o) st -> any_sub p false (o_type o) = false.
+
+  Lemma dtt_step_sub s st a d t' st' :
+    dtt_disj s st (TDisj a d) = Ok (t', st') -> (forall b, In b (d_branches d) -> any_sub c false b = false) -> Q st ->
+    (forall i, any_sub c i t' = false) /\ keeps_nullable (TDisj a d) t' /\ Q st'.
+  Proof.
+    intros Hd Hb HQ. destruct (dtt_disj_class _ _ _ _ _ _ Hd) as [Hs [Hk Hst]].
+    split; [intros i; apply (c_simple p hp_simple); assumption|split; [assumption|]].
+    destruct Hst as [->|[name [attrs [dh ->]]]]; [assumption|].
+    intros k o Hin. apply objs_set_in_inv in Hin. destruct Hin as [Hin|Heq]; [eapply HQ; eassumption|subst o].
+    simpl. rewrite hp_new. simpl. unfold dtt_fields. rewrite existsb_map_eq. simpl. apply existsb_false_iff. intros b Hbin.
+    apply filter_In in Hbin. destruct Hbin as [Hbin _].
+    rewrite any_sub_set_nullable_gen; [|apply hp_setnull].
+    exact (proj2 (proj1 (any_sub_or_false _ _ _ _) (Hb b Hbin))).
+  Qed.
+
+  Lemma dtt_visit_sub s st t t' st' :
+    visit_disj (dtt_disj s) st t = Ok (t', st') -> any_sub p_nui false t = false -> any_sub p false t = false -> Q st ->
+    any_sub p false t' = false /\ Q st'.
+  Proof.
+    intros Hv Hn Hp HQ. apply visit_disj_vrel in Hv.
+    assert (any_sub c false t = false) as Hc by (apply any_sub_or_false; split; assumption).
+    assert (any_sub c false t' = false /\ keeps_nullable t t' /\ Q st') as [H1 [_ H2]];
+      [|split; [exact (proj2 (proj1 (any_sub_or_false _ _ _ _) H1))|assumption]].
+    refine (vrel_pres _ (dtt_disj s) c c keeps_nullable Q keeps_nullable_attrs
+                      (c_array p hp_array) (c_map p hp_map) (c_inter p hp_inter) (c_struct p hp_struct) (fun _ _ _ X => X)
+                      _ st t t' st' false Hv Hc HQ).
+    intros st0 a d t1 st1 i Hd Hcd HQ0. simpl in Hcd. apply orb_false_iff in Hcd. destruct Hcd as [Hnode Hb].
+    destruct (dtt_step_sub _ _ _ _ _ _ Hd) with (2 := HQ0) as [X [Y Z]].
+    - assert (i = false) as ->.
+      { unfold c, por, p_nui in Hnode. simpl in Hnode. apply orb_false_iff in Hnode. destruct Hnode as [Hi _].
+        rewrite andb_true_r in Hi. exact Hi. }
+      exact (proj1 (existsb_false_iff _ _) Hb).
+    - split; [apply X|split; assumption].
+  Qed.
+
+  Theorem dtt_sub_nui ss out :
+    all_clean p_nui ss -> all_clean p ss -> entry_leaf ss -> disjunction_to_type ss = Ok out -> all_clean p out.
+  Proof.
+    intros Hn Hc He H o' Ho'. unfold disjunction_to_type in H.
+    destruct (in_objects_of_mapM _ _ _ _ H Ho') as [s [s' [k [Hs [HF Hko]]]]].
+    assert (forall k0 o0, In (k0, o0) (s_objects s) -> any_sub p_nui false (o_type o0) = false /\ any_sub p false (o_type o0) = false) as Hobj.
+    { intros k0 o0 Hin. assert (In o0 (objects_of ss)) as Hx by (apply in_objects_of; exists s, k0; split; assumption).
+      split; [apply Hn|apply Hc]; assumption. }
+    destruct (visit_schema_st_objects [] (visit_disj (dtt_disj s)) (map snd)
+                (fun t => is_leaf t \/ (any_sub p_nui false t = false /\ any_sub p false t = false)) Q s s') as [final [HQf Hobjs]]; try assumption.
+    - intros st t t' st' HC Hv HQ. destruct HC as [Hl|[A B]].
+      + rewrite (visit_disj_leaf _ _ _ Hl) in Hv. inversion Hv; subst. assumption.
+      + exact (proj2 (dtt_visit_sub _ _ _ _ _ Hv A B HQ)).
+    - intros k0 o0 [].
+    - left. apply He. assumption.
+    - intros [k0 o0] Hin. right. apply (Hobj k0 o0 Hin).
+    - destruct (Hobjs k o' Hko) as [[[k0 o0] [st [t' [st' [Hin [HQ [Hv Heq]]]]]]]|Hnew].
+      + subst o'. simpl in *. destruct (Hobj k0 o0 Hin) as [A B]. exact (proj1 (dtt_visit_sub _ _ _ _ _ Hv A B HQ)).
+      + apply in_map_iff in Hnew. destruct Hnew as [[k1 o1] [Heq Hin]]. simpl in Heq. subst o1. exact (HQf k1 o' Hin).
+  Qed.
+End DttSub.
+
+(* ---------- I6: the later Go passes neither touch nor create enum objects ---------- *)
+Definition enums_from (ss out : schemas) : Prop :=
+  forall o', In o' (objects_of out) -> is_enum (o_type o') = true -> In o' (objects_of ss).
+
+Lemma prefix_back ss out : go_unprefixed_member ss = false -> enums_from ss out -> go_unprefixed_member out = false.
+Proof.
+  unfold go_unprefixed_member. intros H Hb. apply existsb_false_iff. intros o' Ho'.
+  destruct (is_enum (o_type o')) eqn:E.
+  - exact (proj1 (existsb_false_iff _ _) H o' (Hb o' Ho' E)).
+  - unfold enum_members. destruct (o_type o'); try reflexivity. discriminate.
+Qed.
+
+Lemma set_otype_same o : set_otype o (o_type o) = o.
+Proof. destruct o; reflexivity. Qed.
+
+Lemma vrel_enum_root {S} (f : S -> ty -> res (ty * S)) st t t' st' :
+  (forall st0 a d t1 st1, f st0 (TDisj a d) = Ok (t1, st1) -> is_enum t1 = false) ->
+  vrel f st t t' st' -> is_enum t' = true -> t' = t.
+Proof.
+  intros Hf H He. destruct H as [? ? ? ? ? ?|? ? ? ? ? ? ? ? ? ?|? ? ? ? ? ? ?|? ? ? ? ? ?|st0 a d t1 st1 Hd|? ? ?];
+    try discriminate; [|reflexivity].
+  rewrite (Hf _ _ _ _ _ Hd) in He. discriminate.
+Qed.
+
+Lemma v0_enums_from f ss out :
+  (forall s a d t1, f s (TDisj a d) = Ok t1 -> is_enum t1 = false) ->
+  visit_schemas_disj0 f ss = Ok out -> enums_from ss out.
+Proof.
+  intros Hf H o' Ho' He.
+  destruct (visit_schemas_disj0_objects _ _ _ _ H Ho') as [s [o [t' [Hs [Ho [Hv Heq]]]]]]. subst o'. simpl in He.
+  apply visit_disj0_vrel in Hv.
+  assert (t' = o_type o) as ->.
+  { eapply vrel_enum_root; [|exact Hv|exact He]. intros st0 a d t1 st1 Hd. apply lift0_inv in Hd. eapply Hf; eassumption. }
+  rewrite set_otype_same. eapply objects_of_single; eassumption.
+Qed.
+
+Lemma enums_from_fd ss out : flatten_disjunctions ss = Ok out -> enums_from ss out.
+Proof.
+  apply v0_enums_from. intros s a d t1 Hd.
+  destruct (fd_disj_branches (fun _ => True) s a d t1 (fun _ _ => I) (fun _ _ _ _ _ _ _ _ => I) Hd) as [bs' [-> _]]. reflexivity.
+Qed.
+Lemma enums_from_dim ss out : disjunction_infer_mapping ss = Ok out -> enums_from ss out.
+Proof. apply v0_enums_from. intros s a d t1 Hd. destruct (dim_disj_shape _ _ _ _ Hd) as [disc [m ->]]. reflexivity. Qed.
+Lemma enums_from_udta ss out : undiscriminated_disjunction_to_any ss = Ok out -> enums_from ss out.
+Proof. apply v0_enums_from. intros s a d t1 Hd. destruct (udta_disj_shape _ _ _ _ Hd) as [->|[-> _]]; reflexivity. Qed.
+
+Lemma vrel_state_inv {S} (f : S -> ty -> res (ty * S)) (Q : S -> Prop) :
+  (forall st a d t1 st1, f st (TDisj a d) = Ok (t1, st1) -> Q st -> Q st1) ->
+  forall st t t' st', vrel f st t t' st' -> Q st -> Q st'.
+Proof.
+  intros Hf.
+  assert ((forall st t t' st', vrel f st t t' st' -> Q st -> Q st') /\
+          (forall st fs fs' st', vrel_fields f st fs fs' st' -> Q st -> Q st') /\
+          (forall st bs bs' st', vrel_list f st bs bs' st' -> Q st -> Q st')) as G.
+  { apply vrel_mutind.
+    - intros st a v v' st' _ IH. exact IH.
+    - intros st a i v i' v' st1 st2 _ IHi _ IHv HQ. apply IHv. apply IHi. exact HQ.
+    - intros st a dh fs fs' st' _ IH. exact IH.
+    - intros st a bs bs' st' _ IH. exact IH.
+    - intros st a d t' st' Hd HQ. eapply Hf; eassumption.
+    - intros st t _ HQ. exact HQ.
+    - intros st HQ. exact HQ.
+    - intros st f0 t' st1 r r' st2 _ IHt _ IHr HQ. apply IHr. apply IHt. exact HQ.
+    - intros st HQ. exact HQ.
+    - intros st b b' st1 r r' st2 _ IHb _ IHr HQ. apply IHr. apply IHb. exact HQ. }
+  exact (proj1 G).
+Qed.
+
+Lemma enums_from_dtt ss out : disjunction_to_type ss = Ok out -> enums_from ss out.
+Proof.
+  intros H o' Ho' He. unfold disjunction_to_type in H.
+  destruct (in_objects_of_mapM _ _ _ _ H Ho') as [s [s' [k [Hs [HF Hko]]]]].
+  set (Q := fun st : list (string * object) => forall k o, In (k, o) st -> is_enum (o_type o) = false).
+  assert (forall st a d t1 st1, dtt_disj s st (TDisj a d) = Ok (t1, st1) -> is_enum t1 = false /\ (Q st -> Q st1)) as Hstep.
+  { intros st a d t1 st1 Hd. destruct (dtt_disj_class _ _ _ _ _ _ Hd) as [Hsimple [_ Hst]].
+    split; [destruct t1; simpl in Hsimple; try contradiction; reflexivity|].
+    intros HQ. destruct Hst as [->|[name [attrs [dh ->]]]]; [assumption|].
+    intros k0 o0 Hin. apply objs_set_in_inv in Hin. destruct Hin as [Hin|Heq]; [eapply HQ; eassumption|subst o0; reflexivity]. }
+  destruct (visit_schema_st_objects [] (visit_disj (dtt_disj s)) (map snd) (fun _ => True) Q s s') as [final [HQf Hobjs]]; try assumption; try exact I.
+  - intros st t t' st' _ Hv HQ. apply visit_disj_vrel in Hv.
+    eapply (vrel_state_inv (dtt_disj s) Q); [|exact Hv|exact HQ].
+    intros st0 a d t1 st1 Hd. exact (proj2 (Hstep _ _ _ _ _ Hd)).
+  - intros k0 o0 [].
+  - intros ko _. exact I.
+  - destruct (Hobjs k o' Hko) as [[[k0 o0] [st [t' [st' [Hin [HQ [Hv Heq]]]]]]]|Hnew].
+    + subst o'. simpl in *. apply visit_disj_vrel in Hv.
+      assert (t' = o_type o0) as ->.
+      { eapply vrel_enum_root; [|exact Hv|exact He]. intros st0 a d t1 st1 Hd. exact (proj1 (Hstep _ _ _ _ _ Hd)). }
+      rewrite set_otype_same. apply in_objects_of. exists s, k0. split; assumption.
+    + apply in_map_iff in Hnew. destruct Hnew as [[k1 o1] [Heq Hin]]. simpl in Heq. subst o1.
+      rewrite (HQf k1 o' Hin) in He. discriminate.
+Qed.
+
+(* ---------- I2 through UndiscriminatedDisjunctionToAny: the `any` that replaces a union is not
+   nullable; the exact condition is that no NON-REQUIRED field has a union type the pass
+   replaces ---------- *)
+Definition udta_hits (s : schema) (t : ty) : bool :=
+  is_disj t && match udta_disj s t with Ok t' => negb (is_disj t') | _ => false end.
+Definition p_opt_hit (s : schema) (_ : bool) (t : ty) : bool :=
+  match t with
+  | TStruct _ _ fs => existsb (fun f => negb (f_required f) && udta_hits s (f_type f)) fs
+  | _ => false
+  end.
+Definition udta_safe (ss : schemas) : bool :=
+  forallb (fun s => forallb (fun ko => negb (any_sub (p_opt_hit s) false (o_type (snd ko)))) (s_objects s)) ss.
+
+Theorem optnn_udta ss out :
+  udta_safe ss = true -> all_clean p_optnn ss -> undiscriminated_disjunction_to_any ss = Ok out -> all_clean p_optnn out.
+Proof.
+  intros Hsafe Hc H o' Ho'. unfold undiscriminated_disjunction_to_any in H.
+  destruct (visit_schemas_disj0_objects _ _ _ _ H Ho') as [s [o [t' [Hs [Ho [Hv Heq]]]]]]. subst o'. simpl.
+  apply visit_disj0_vrel in Hv.
+  assert (any_sub (por (p_opt_hit s) p_optnn) false (o_type o) = false) as Hin.
+  { apply any_sub_or_false. split; [|apply Hc; eapply objects_of_single; eassumption].
+    unfold udta_safe in Hsafe. rewrite forallb_forall in Hsafe. specialize (Hsafe s Hs). rewrite forallb_forall in Hsafe.
+    apply in_objects_of in Ho. destruct Ho as [s0 [k [[<-|[]] Hko]]]. specialize (Hsafe (k, o) Hko). simpl in Hsafe.
+    apply negb_true_iff in Hsafe. exact Hsafe. }
+  refine (proj1 (vrel_pres unit (lift0 (udta_disj s)) (por (p_opt_hit s) p_optnn) p_optnn
+                           (fun t t' => keeps_nullable t t' \/ udta_hits s t = true) (fun _ => True)
+                           _ _ _ _ _ _ _ tt (o_type o) t' tt false Hv Hin I)).
+  - intros t0 t1 E. left. apply keeps_nullable_attrs. assumption.
+  - reflexivity.
+  - reflexivity.
+  - reflexivity.
+  - intros i a dh fs fs' HF2 Hp. unfold por in Hp. simpl in Hp. apply orb_false_iff in Hp. destruct Hp as [Hh Hopt].
+    simpl. apply existsb_false_iff. intros f' Hf'.
+    destruct (Forall2_in_r _ _ _ HF2 f' Hf') as [f [Hf [Hreq HR]]]. rewrite Hreq.
+    pose proof (proj1 (existsb_false_iff _ _) Hh f Hf) as Hh1. pose proof (proj1 (existsb_false_iff _ _) Hopt f Hf) as Ho1.
+    simpl in Hh1, Ho1. destruct (f_required f); [reflexivity|]. simpl in *.
+    destruct HR as [HR|HR]; [|rewrite HR in Hh1; discriminate].
+    apply negb_false_iff in Ho1. rewrite (HR Ho1). reflexivity.
+  - intros i t Hl _. destruct t; simpl in Hl; try contradiction; reflexivity.
+  - intros st a d t1 st1 i Hd Hcd _. apply lift0_inv in Hd. split; [|split; [|exact I]].
+    + destruct (udta_disj_shape _ _ _ _ Hd) as [->|[-> _]]; [|reflexivity].
+      exact (proj2 (proj1 (any_sub_or_false _ _ _ _) Hcd)).
+    + destruct (udta_disj_shape _ _ _ _ Hd) as [->|[E _]]; [left; intros X; exact X|].
+      right. unfold udta_hits. simpl is_disj. rewrite Hd. rewrite E. reflexivity.
+Qed.
+
+(* =====================================================================================
+   instances for I1 (p_struct, below the root), I5 (p_enum, below the root), I2 (p_optnn)
+   ===================================================================================== *)
+Lemma optnn_struct_hyp : forall inter a dh fs fs',
+  Forall2 (fun f f' => f_required f' = f_required f /\ keeps_nullable (f_type f) (f_type f')) fs fs' ->
+  p_optnn inter (TStruct a dh fs) = false -> p_optnn inter (TStruct a dh fs') = false.
+Proof.
+  intros i a dh fs fs' HF2 H. simpl in *. apply existsb_false_iff. intros f' Hf'.
+  destruct (Forall2_in_r _ _ _ HF2 f' Hf') as [f [Hf [Hreq Hkn]]].
+  pose proof (proj1 (existsb_false_iff _ _) H f Hf) as Hx. simpl in Hx. rewrite Hreq.
+  destruct (f_required f); [reflexivity|]. simpl in *. apply negb_false_iff in Hx. rewrite (Hkn Hx). reflexivity.
+Qed.
+Lemma nullable_set_true' t : nullable (ty_attrs (set_nullable t true)) = true.
+Proof. destruct t; reflexivity. Qed.
+Lemma optnn_new_hyp : forall attrs dh bs, p_optnn false (TStruct attrs dh (dtt_fields bs)) = false.
+Proof.
+  intros attrs dh bs. simpl. unfold dtt_fields. rewrite existsb_map_eq. simpl. apply existsb_false_iff. intros b _.
+  rewrite nullable_set_true'. reflexivity.
+Qed.
+Lemma simple_false (p : bool -> ty -> bool) :
+  (forall i a pk n, p i (TRef a pk n) = false) -> (forall i a k v cs, p i (TScalar a k v cs) = false) ->
+  forall i l, is_simple l -> p i l = false.
+Proof. intros H1 H2 i l Hl. destruct l; simpl in Hl; try contradiction; [apply H1|apply H2]. Qed.
+
+Definition srel_struct_below' := fun t t' (H : srel t t') => srel_struct_below t t' H.
+Lemma srel_enum_below t t' : srel t t' -> any_below p_enum t = false -> any_below p_enum t' = false.
+Proof. apply (srel_pres_below p_enum (fun _ _ => True)); srel_side. Qed.
+
+Section Instances.
+  Variables ss out : schemas.
+  Hypothesis Hn : all_clean p_nui ss.
+
+  (* I1 *)
+  Theorem i1_dwnto : all_clean_below p_struct ss -> disjunction_with_null_to_optional ss = Ok out -> all_clean_below p_struct out.
+  Proof. intros Hc H. eapply (dwnto_below_nui p_struct); try eassumption; nui_side. Qed.
+  Theorem i1_docte : all_clean_below p_struct ss -> disjunction_of_constants_to_enum ss = Ok out -> all_clean_below p_struct out.
+  Proof. intros Hc H. eapply (docte_below_nui p_struct); try eassumption; nui_side. Qed.
+  Theorem i1_fd : all_clean_below p_struct ss -> flatten_disjunctions ss = Ok out -> all_clean_below p_struct out.
+  Proof. intros Hc H. eapply (fd_below_nui p_struct); try eassumption; nui_side. Qed.
+  Theorem i1_dim : all_clean_below p_struct ss -> disjunction_infer_mapping ss = Ok out -> all_clean_below p_struct out.
+  Proof. intros Hc H. eapply (dim_below_nui p_struct); try eassumption; nui_side. Qed.
+  Theorem i1_udta : all_clean_below p_struct ss -> undiscriminated_disjunction_to_any ss = Ok out -> all_clean_below p_struct out.
+  Proof. intros Hc H. eapply (udta_below_nui p_struct); try eassumption; nui_side. Qed.
+  Theorem i1_dtt : entry_leaf ss -> all_clean_below p_struct ss -> disjunction_to_type ss = Ok out -> all_clean_below p_struct out.
+  Proof.
+    intros He Hc H. eapply (dtt_below_nui p_struct); try eassumption; nui_side.
+    apply simple_false; intros; unfold p_struct; simpl; apply andb_false_r.
+  Qed.
+  (* I5 *)
+  Theorem i5_fd : all_clean_below p_enum ss -> flatten_disjunctions ss = Ok out -> all_clean_below p_enum out.
+  Proof. intros Hc H. eapply (fd_below_nui p_enum); try eassumption; nui_side. Qed.
+  Theorem i5_dim : all_clean_below p_enum ss -> disjunction_infer_mapping ss = Ok out -> all_clean_below p_enum out.
+  Proof. intros Hc H. eapply (dim_below_nui p_enum); try eassumption; nui_side. Qed.
+  Theorem i5_udta : all_clean_below p_enum ss -> undiscriminated_disjunction_to_any ss = Ok out -> all_clean_below p_enum out.
+  Proof. intros Hc H. eapply (udta_below_nui p_enum); try eassumption; nui_side. Qed.
+  Theorem i5_dtt : entry_leaf ss -> all_clean_below p_enum ss -> disjunction_to_type ss = Ok out -> all_clean_below p_enum out.
+  Proof.
+    intros He Hc H. eapply (dtt_below_nui p_enum); try eassumption; nui_side.
+    apply simple_false; intros; reflexivity.
+  Qed.
+  (* I2 *)
+  Theorem i2_dwnto : all_clean p_optnn ss -> disjunction_with_null_to_optional ss = Ok out -> all_clean p_optnn out.
+  Proof. intros Hc H. eapply proj2. eapply (dwnto_sub_nui p_optnn); try eassumption; nui_side. exact optnn_struct_hyp. Qed.
+  Theorem i2_docte : all_clean p_optnn ss -> disjunction_of_constants_to_enum ss = Ok out -> all_clean p_optnn out.
+  Proof. intros Hc H. eapply proj2. eapply (docte_sub_nui p_optnn); try eassumption; nui_side. exact optnn_struct_hyp. Qed.
+  Theorem i2_fd : all_clean p_optnn ss -> flatten_disjunctions ss = Ok out -> all_clean p_optnn out.
+  Proof. intros Hc H. eapply proj2. eapply (fd_sub_nui p_optnn); try eassumption; nui_side. exact optnn_struct_hyp. Qed.
+  Theorem i2_dim : all_clean p_optnn ss -> disjunction_infer_mapping ss = Ok out -> all_clean p_optnn out.
+  Proof. intros Hc H. eapply proj2. eapply (dim_sub_nui p_optnn); try eassumption; nui_side. exact optnn_struct_hyp. Qed.
+  Theorem i2_dtt : entry_leaf ss -> all_clean p_optnn ss -> disjunction_to_type ss = Ok out -> all_clean p_optnn out.
+  Proof.
+    intros He Hc H. eapply (dtt_sub_nui p_optnn); try eassumption; nui_side.
+    - exact optnn_struct_hyp.
+    - apply simple_false; intros; reflexivity.
+    - exact optnn_new_hyp.
+  Qed.
+End Instances.
+
+(* =====================================================================================
+   THE GO CHAIN: on tame inputs the chain's output has no normal-form violation
+   ===================================================================================== *)
+From Cog Require Import Proofs.C06Proofs.
+
+Definition union_in_inter (ss : schemas) : bool := existsb (fun o => any_sub p_nui false (o_type o)) (objects_of ss).
+
+(* tame: no union below a union branch, no union inside an allOf composition, entry-point types
+   that are plain references, and - checked on the model's own state before
+   UndiscriminatedDisjunctionToAny - no optional field whose union that pass turns into `any` *)
+Definition tame_go (ss : schemas) : bool :=
+  negb (nested_union ss) && negb (union_in_inter ss) && entry_simple ss &&
+  match process (firstn 9 chain_go) ss with Ok mid => udta_safe mid | _ => true end.
+
+Lemma subset_clean p ss out : (forall o', In o' (objects_of out) -> In o' (objects_of ss)) -> all_clean p ss -> all_clean p out.
+Proof. intros Hsub Hc o Ho. apply Hc. apply Hsub. assumption. Qed.
+Lemma subset_clean_below p ss out : (forall o', In o' (objects_of out) -> In o' (objects_of ss)) -> all_clean_below p ss -> all_clean_below p out.
+Proof. intros Hsub Hc o Ho. apply Hc. apply Hsub. assumption. Qed.
+Lemma subset_enums ss out : (forall o', In o' (objects_of out) -> In o' (objects_of ss)) -> enums_from ss out.
+Proof. intros Hsub o Ho _. apply Hsub. assumption. Qed.
+
+Theorem go_chain_nf ss out :
+  tame_go ss = true -> process chain_go ss = Ok out -> nf_violations "go" out = [].
+Proof.
+  intros Ht H. unfold tame_go in Ht.
+  apply andb_true_iff in Ht. destruct Ht as [Ht Hsafe]. apply andb_true_iff in Ht. destruct Ht as [Ht He].
+  apply andb_true_iff in Ht. destruct Ht as [Hn Hu]. apply negb_true_iff in Hn, Hu.
+  pose proof (proj1 (all_clean_iff _ _) Hn) as N0. pose proof (proj1 (all_clean_iff _ _) Hu) as U0.
+  pose proof (entry_simple_leaf _ He) as E0. unfold chain_go in H.
+  (* 1 AnonymousStructsToNamed *)
+  step_total H. pose proof (nuf_astn _ N0) as N1. pose proof (nui_astn _ U0) as U1. pose proof (entry_leaf_astn _ E0) as E1.
+  pose proof (proj1 (all_clean_below_iff _ _) (astn_establishes_no_anonymous_struct ss)) as S1.
+  (* 2 NotRequiredFieldAsNullableType *)
+  step_total H. pose proof (nuf_nrfn _ N1) as N2. pose proof (nui_nrfn _ U1) as U2. pose proof (entry_leaf_nrfn _ E1) as E2.
+  pose proof (nrfn_pres_below p_struct _ srel_struct_below' S1) as S2.
+  pose proof (proj1 (all_clean_iff p_optnn _) (not_required_establishes_optional_nullable_proof (anonymous_structs_to_named ss))) as O2.
+  (* 3 DisjunctionWithNullToOptional *)
+  step_res H s3 P3. pose proof (nuf_dwnto _ _ N2 P3) as N3. pose proof (nui_dwnto _ _ U2 P3) as U3.
+  pose proof (entry_leaf_v0 _ _ _ E2 P3) as E3. pose proof (i1_dwnto _ _ U2 S2 P3) as S3. pose proof (i2_dwnto _ _ U2 O2 P3) as O3.
+  (* 4 DisjunctionOfConstantsToEnum *)
+  step_res H s4 P4. pose proof (nuf_docte _ _ N3 P4) as N4. pose proof (nui_docte _ _ U3 P4) as U4.
+  pose proof (entry_leaf_v0 _ _ _ E3 P4) as E4. pose proof (i1_docte _ _ U3 S3 P4) as S4. pose proof (i2_docte _ _ U3 O3 P4) as O4.
+  (* 5 AnonymousEnumToExplicitType *)
+  step_total H. pose proof (nuf_aete _ N4) as N5. pose proof (nui_aete _ U4) as U5. pose proof (entry_leaf_aete _ E4) as E5.
+  pose proof (aete_pres_below p_struct _ srel_struct_below' S4) as S5.
+  pose proof (aete_pres p_optnn _ srel_optnn' (fun _ _ => eq_refl) O4) as O5.
+  pose proof (proj1 (all_clean_below_iff _ _) (aete_establishes_no_anonymous_enum s4)) as A5.
+  (* 6 PrefixEnumValues *)
+  step_res H s6 P6. pose proof (nuf_pev _ _ N5 P6) as N6. pose proof (nui_pev _ _ U5 P6) as U6.
+  pose proof (entry_leaf_pev _ _ E5 P6) as E6. pose proof (pev_pres_below p_struct _ _ S5 P6) as S6.
+  pose proof (pev_pres p_optnn _ _ (fun _ _ _ _ => eq_refl) O5 P6) as O6. pose proof (pev_pres_below p_enum _ _ A5 P6) as A6.
+  pose proof (prefix_establishes _ _ P6) as G6.
+  (* 7 FlattenDisjunctions *)
+  step_res H s7 P7. pose proof (nuf_fd _ _ N6 P7) as N7. pose proof (nui_fd _ _ U6 P7) as U7.
+  pose proof (entry_leaf_v0 _ _ _ E6 P7) as E7. pose proof (i1_fd _ _ U6 S6 P7) as S7. pose proof (i2_fd _ _ U6 O6 P7) as O7.
+  pose proof (i5_fd _ _ U6 A6 P7) as A7. pose proof (prefix_back _ _ G6 (enums_from_fd _ _ P7)) as G7.
+  (* 8 DisjunctionOfAnonymousStructsToExplicit: nothing left to do *)
+  step_res H s8 P8. pose proof (doaste_noop _ _ S7 U7 E7 P8) as Sub8.
+  pose proof (subset_clean _ _ _ Sub8 N7) as N8. pose proof (subset_clean _ _ _ Sub8 U7) as U8.
+  pose proof (entry_leaf_doaste _ _ E7 P8) as E8. pose proof (subset_clean_below _ _ _ Sub8 S7) as S8.
+  pose proof (subset_clean _ _ _ Sub8 O7) as O8. pose proof (subset_clean_below _ _ _ Sub8 A7) as A8.
+  pose proof (prefix_back _ _ G7 (subset_enums _ _ Sub8)) as G8.
+  (* 9 DisjunctionInferMapping *)
+  step_res H s9 P9. pose proof (nuf_dim _ _ N8 P9) as N9. pose proof (nui_dim _ _ U8 P9) as U9.
+  pose proof (entry_leaf_v0 _ _ _ E8 P9) as E9. pose proof (i1_dim _ _ U8 S8 P9) as S9. pose proof (i2_dim _ _ U8 O8 P9) as O9.
+  pose proof (i5_dim _ _ U8 A8 P9) as A9. pose proof (prefix_back _ _ G8 (enums_from_dim _ _ P9)) as G9.
+  (* the state the side condition of tame_go looks at *)
+  assert (process (firstn 9 chain_go) ss = Ok s9) as Hmid.
+  { unfold chain_go. cbn [firstn process run_pass bind]. rewrite P3. cbn [bind]. rewrite P4. cbn [bind]. rewrite P6. cbn [bind].
+    rewrite P7. cbn [bind]. rewrite P8. cbn [bind]. rewrite P9. reflexivity. }
+  rewrite Hmid in Hsafe.
+  (* 10 UndiscriminatedDisjunctionToAny *)
+  step_res H s10 P10. pose proof (nuf_udta _ _ N9 P10) as N10. pose proof (nui_udta _ _ U9 P10) as U10.
+  pose proof (entry_leaf_v0 _ _ _ E9 P10) as E10. pose proof (i1_udta _ _ U9 S9 P10) as S10.
+  pose proof (optnn_udta _ _ Hsafe O9 P10) as O10. pose proof (i5_udta _ _ U9 A9 P10) as A10.
+  pose proof (prefix_back _ _ G9 (enums_from_udta _ _ P10)) as G10.
+  (* 11 DisjunctionToType *)
+  step_res H s11 P11. simpl in H. inversion H; subst.
+  assert (has_union out = false) as HU.
+  { eapply dtt_establishes_no_union; [apply all_clean_iff; exact N10|apply entry_leaf_nuf; exact E10|exact P11]. }
+  pose proof (i1_dtt _ _ U10 E10 S10 P11) as S11. pose proof (i2_dtt _ _ U10 E10 O10 P11) as O11.
+  pose proof (i5_dtt _ _ U10 E10 A10 P11) as A11. pose proof (prefix_back _ _ G10 (enums_from_dtt _ _ P11)) as G11.
+  unfold nf_violations. simpl.
+  rewrite HU, (no_union_no_tnull _ HU), G11.
+  rewrite (proj2 (all_clean_below_iff p_enum out) A11 : has_anonymous_enum out = false).
+  rewrite (proj2 (all_clean_below_iff p_struct out) S11 : has_anonymous_struct out = false).
+  rewrite (proj2 (all_clean_iff p_optnn out) O11 : has_optional_not_nullable out = false).
+  reflexivity.
+Qed.
+
+(* ---------- non-vacuity, and necessity of every condition of tame_go ---------- *)
+Local Open Scope string_scope.
+Definition xSc (k : skind) := TScalar A0 k DNil [].
+Definition xCst (s : string) := TScalar A0 KString (DStr s) [].
+Definition xEnum (l : list string) := TEnum A0 (map (fun n => mkEnumVal (xSc KString) n (DStr n)) l).
+Definition xU (bs : list ty) := TDisj A0 (mkDisj bs "" []).
+(* a discriminated union of struct references, an array of a union of scalars, a map of enums, nested
+   anonymous structs, `T | null`, an optional union of scalars, a union of constants *)
+Definition w_tame : schemas :=
+  [mkSchema "p" wm0 "" ty_zero
+    [("A", mkObject "A" [] (TStruct A0 [] [mkField "kind" [] (xCst "a") true; mkField "x" [] (xSc KString) false]) "p" "A");
+     ("B", mkObject "B" [] (TStruct A0 [] [mkField "kind" [] (xCst "b") true; mkField "y" [] (xSc KInt64) true]) "p" "B");
+     ("Obj", mkObject "Obj" []
+        (TStruct A0 []
+           [mkField "u" [] (xU [TRef A0 "p" "A"; TRef A0 "p" "B"]) true;
+            mkField "items" [] (TArray A0 (xU [xSc KString; xSc KInt64])) true;
+            mkField "m" [] (TMap A0 (xSc KString) (xEnum ["x"; "y"])) false;
+            mkField "s" [] (TStruct A0 [] [mkField "inner" [] (TArray A0 (xEnum ["a"; "b"])) true;
+                                           mkField "deep" [] (TStruct A0 [] [mkField "z" [] (xSc KBool) false]) false]) true;
+            mkField "n" [] (xU [xSc KString; xSc KNull]) true;
+            mkField "o" [] (xU [xSc KString; xSc KBool]) false;
+            mkField "c" [] (xU [xCst "on"; xCst "off"]) false]) "p" "Obj")]].
+Example go_chain_nf_nonvacuous :
+  tame_go w_tame = true /\
+  nf_violations "go" w_tame = ["union-remains"; "anonymous-enum"; "anonymous-struct"; "optional-field-not-nullable"; "T-or-null-union"] /\
+  exists out, process chain_go w_tame = Ok out /\ List.length (objects_of out) = 11 /\ nf_violations "go" out = [].
+Proof. split; [vm_compute; reflexivity|]. split; [vm_compute; reflexivity|]. eexists. split; [vm_compute; reflexivity|]. split; vm_compute; reflexivity. Qed.
+
+Definition xObj (t : ty) : schemas := [mkSchema "p" wm0 "" ty_zero [("Obj", mkObject "Obj" [] t "p" "Obj")]].
+(* a union inside an allOf composition, with an anonymous struct below a struct branch *)
+Definition w_union_in_inter : schemas :=
+  xObj (TStruct A0 [] [mkField "f" [] (TInter A0 [xU [TStruct A0 [] [mkField "a" [] (TStruct A0 [] [mkField "b" [] (xSc KBool) true]) true];
+                                                       TArray A0 (xSc KString)]]) true]).
+(* an optional, undiscriminated union of struct references *)
+Definition w_optional_any : schemas :=
+  [mkSchema "p" wm0 "" ty_zero
+    [("A", mkObject "A" [] (TStruct A0 [] [mkField "x" [] (xSc KString) true]) "p" "A");
+     ("B", mkObject "B" [] (TStruct A0 [] [mkField "y" [] (xSc KString) true]) "p" "B");
+     ("Obj", mkObject "Obj" [] (TStruct A0 [] [mkField "u" [] (xU [TRef A0 "p" "A"; TRef A0 "p" "B"]) false]) "p" "Obj")]].
+(* an entry-point type that is itself a union with a nested union *)
+Definition w_union_entry : schemas :=
+  [mkSchema "p" wm0 "E" (xU [xSc KString; TArray A0 (xU [xSc KInt64; xSc KBool])]) [("Obj", mkObject "Obj" [] (xSc KString) "p" "Obj")]].
+
+Definition go_breaks (w : schemas) (v : string) : Prop := exists out, process chain_go w = Ok out /\ In v (nf_violations "go" out).
+Example tame_go_conditions_needed :
+  (nested_union w_union_in_array_branch = true /\ go_breaks w_union_in_array_branch "union-remains") /\
+  (union_in_inter w_union_in_inter = true /\ nested_union w_union_in_inter = false /\ go_breaks w_union_in_inter "anonymous-struct") /\
+  (tame_go w_optional_any = false /\ nested_union w_optional_any = false /\ union_in_inter w_optional_any = false /\
+   entry_simple w_optional_any = true /\ go_breaks w_optional_any "optional-field-not-nullable") /\
+  (entry_simple w_union_entry = false /\ nested_union w_union_entry = false /\ go_breaks w_union_entry "union-remains").
+Proof.
+  repeat split; try (vm_compute; reflexivity); eexists; (split; [vm_compute; reflexivity|vm_compute; tauto]).
 Qed.
